@@ -23,14 +23,6 @@ Proof.
   - simpl. rewrite (IH t H). lia.
 Qed.
 
-Lemma cnt_remove_nth {A} (P : A -> bool) l k x :
-  nth_error l k = Some x -> cnt P (remove_nth l k) = cnt P l - b2z (P x).
-Proof.
-  revert k; induction l as [|y l IH]; intros [|k] H; simpl in H; try discriminate.
-  - injection H as ->. simpl. unfold b2z. destruct (P x); lia.
-  - simpl. rewrite (IH k H). lia.
-Qed.
-
 Lemma cnt_map {A B} (f : A -> B) (P : B -> bool) l : cnt P (map f l) = cnt (fun x => P (f x)) l.
 Proof. induction l as [|x l IH]; simpl; [reflexivity|]. rewrite IH. reflexivity. Qed.
 
@@ -63,13 +55,6 @@ Proof.
     destruct (IH t H) as [E|E]; [left; exact E | right; right; exact E].
 Qed.
 
-Lemma in_remove_nth {A} (l : list A) k x : In x (remove_nth l k) -> In x l.
-Proof.
-  revert k; induction l as [|y l IH]; intros [|k] H; simpl in H; try contradiction.
-  - right; exact H.
-  - destruct H as [H|H]; [left; exact H | right; exact (IH k H)].
-Qed.
-
 Lemma length_set_nth {A} (l : list A) t v : length (set_nth l t v) = length l.
 Proof. revert t; induction l as [|y l IH]; intros [|t]; simpl; try reflexivity. rewrite IH. reflexivity. Qed.
 
@@ -79,120 +64,205 @@ Proof. unfold bump. rewrite Nat.eqb_refl. reflexivity. Qed.
 Lemma bump_spec f h d x : bump f h d x = f x + (if Nat.eqb x h then d else 0).
 Proof. unfold bump. destruct (Nat.eqb x h); lia. Qed.
 
+
+Lemma nth_error_set_nth {A} (l : list A) t v q : nth_error l t = Some q -> nth_error (set_nth l t v) t = Some v.
+Proof.
+  revert t; induction l as [|x l IH]; intros [|t] H; simpl in *; try discriminate; auto.
+Qed.
+
+Lemma nth_error_set_nth_other {A} (l : list A) t t' v : t <> t' -> nth_error (set_nth l t' v) t = nth_error l t.
+Proof.
+  revert t t'; induction l as [|x l IH]; intros [|t] [|t'] H; simpl; try reflexivity; try congruence.
+  apply IH. congruence.
+Qed.
+
+Lemma cnt_zero_inv {A} (P : A -> bool) l x : cnt P l = 0 -> In x l -> P x = false.
+Proof.
+  induction l as [|y l IH]; intros H Hx; [contradiction|]. simpl in H.
+  pose proof (cnt_nonneg P l) as Hn.
+  destruct Hx as [<-|Hx].
+  - destruct (P y); [lia | reflexivity].
+  - apply IH; [destruct (P y); lia | exact Hx].
+Qed.
+
+Lemma cnt_pos_nth {A} (P : A -> bool) l : 0 < cnt P l -> exists k x, nth_error l k = Some x /\ P x = true.
+Proof.
+  induction l as [|y l IH]; simpl; intros H; [lia|].
+  destruct (P y) eqn:E.
+  - exists 0%nat, y. split; [reflexivity | exact E].
+  - destruct (IH ltac:(lia)) as (k & x & Hk & Hx). exists (S k), x. split; assumption.
+Qed.
+
+Lemma setb_spec f h b x : setb f h b x = if Nat.eqb x h then b else f x.
+Proof. reflexivity. Qed.
+
 (* ---------- the invariant ---------- *)
-Definition deadline (c : config) (e : nat * Z) : nat * Z := (fst e, snd e + c_fail_timeout c).
+Definition acq_ok (c : config) (p : pc) : Prop :=
+  match p with Acquiring _ n => 0 < c_max_conns c -> n < c_max_conns c | _ => True end.
 
 Record Inv (c : config) (s : state) : Prop := {
   inv_conns : forall h, conns s h = cnt (is_fwd h) (threads s);
-  inv_fails : forall h, fails s h = cnt (for_host h) (timers s);
-  inv_log : forall P, cnt P (map (deadline c) (flog s)) = cnt P (timers s) + cnt P (fired s);
-  inv_fired : forall e, In e (fired s) -> snd e <= now s;
-  inv_past : forall e, In e (flog s) -> snd e <= now s;
-  inv_off : c_fail_timeout c <= 0 -> timers s = []
+  inv_fails : forall h, fails s h = pending s h;
+  inv_fired : forall f w, In f (flog s) -> f_fired f = Some w -> f_at f + c_fail_timeout c <= w <= now s;
+  inv_past : forall f, In f (flog s) -> f_at f <= now s;
+  inv_off : c_fail_timeout c <= 0 -> flog s = [];
+  inv_acq : forall p, In p (threads s) -> acq_ok c p;
+  inv_cap : 0 < c_max_conns c -> forall h, conns s h <= c_max_conns c
 }.
 
-Lemma inv_init c r : Inv c (init r).
-Proof. constructor; simpl; intros; try reflexivity; try contradiction. Qed.
+Lemma inv_init c r u : Inv c (init r u).
+Proof. constructor; simpl; intros; try reflexivity; try contradiction; try lia. Qed.
 
 Arguments step : simpl never.
-Tactic Notation "inv_spawn" hyp(H) := unfold step in H; injection H as <-.
-Tactic Notation "inv_select" hyp(H) constr(sel) constr(s) constr(t) ident(o) ident(r) ident(Hn) ident(Hsel) :=
-  unfold step in H; destruct (nth_error (threads s) t) as [[|?|?|?|?]|] eqn:Hn; try discriminate H;
-  destruct (sel s) as [o r] eqn:Hsel; injection H as <-.
-Tactic Notation "inv_begin" hyp(H) constr(c) constr(s) constr(t) ident(h) ident(Hn) ident(F) :=
-  unfold step in H; destruct (nth_error (threads s) t) as [[|[h|]|?|?|?]|] eqn:Hn; try discriminate H;
-  destruct (full c s h) eqn:F; injection H as <-.
-Tactic Notation "inv_nohost" hyp(H) constr(s) constr(t) ident(Hn) :=
-  unfold step in H; destruct (nth_error (threads s) t) as [[|[?|]|?|?|?]|] eqn:Hn; try discriminate H;
-  injection H as <-.
-Tactic Notation "inv_finish" hyp(H) constr(s) constr(t) ident(h) ident(Hn) :=
-  unfold step in H; destruct (nth_error (threads s) t) as [[|?|h|?|?]|] eqn:Hn; try discriminate H;
-  injection H as <-.
-Tactic Notation "inv_record" hyp(H) constr(c) constr(s) constr(t) ident(h) ident(Hn) ident(Hft) :=
-  unfold step in H; destruct (nth_error (threads s) t) as [[|?|?|h|?]|] eqn:Hn; try discriminate H;
-  destruct (0 <? c_fail_timeout c) eqn:Hft; injection H as <-.
-Tactic Notation "inv_fire" hyp(H) constr(s) constr(k) ident(h) ident(d) ident(Hn) ident(Hdue) :=
-  unfold step in H; destruct (nth_error (timers s) k) as [[h d]|] eqn:Hn; try discriminate H;
-  destruct (d <=? now s) eqn:Hdue; try discriminate H; injection H as <-.
-Tactic Notation "inv_tick" hyp(H) constr(d) ident(Hd) :=
-  unfold step in H; destruct (0 <=? d) eqn:Hd; try discriminate H; injection H as <-.
+Ltac sset := unfold set_threads, set_conns, set_fails, set_now, set_unhealthy, set_robin in *; simpl in *.
+(* open a step of thread t: only the program counter the label applies to survives *)
+Ltac open_thread H s t Hn :=
+  unfold step in H;
+  destruct (nth_error (threads s) t) as [[|?obs ?cur|[?h|]|?h ?n|?h|?h|?code]|] eqn:Hn; try discriminate H.
 
-Lemma step_inv c sel s l s' : Inv c s -> step c sel s l = Some s' -> Inv c s'.
+Lemma full_false_lt c s h : full c s h = false -> 0 < c_max_conns c -> conns s h < c_max_conns c.
 Proof.
-  intros [Ic If Il Id Ip Io] H. destruct l.
-  - (* spawn *) inv_spawn H. constructor; simpl; auto.
-    intros h. rewrite cnt_app. simpl. rewrite Ic. lia.
-  - (* select *) inv_select H sel s t o r Hn Hsel. constructor; simpl; auto.
-    intros h. rewrite (cnt_set_nth _ _ _ _ _ Hn). rewrite Ic. simpl. lia.
-  - (* begin *) inv_begin H c s t h Hn F.
-    + (* the host is full: the request is not counted *) constructor; simpl; auto.
-      intros h0. rewrite (cnt_set_nth _ _ _ _ _ Hn). rewrite Ic. simpl. lia.
-    + constructor; simpl; auto.
-      intros h0. rewrite (cnt_set_nth _ _ _ _ _ Hn). rewrite bump_spec, Ic. simpl. unfold b2z.
-      destruct (Nat.eqb h0 h); lia.
-  - (* no host *) inv_nohost H s t Hn. constructor; simpl; auto.
-    intros h. rewrite (cnt_set_nth _ _ _ _ _ Hn). rewrite Ic. simpl. destruct again; simpl; lia.
-  - (* finish *) inv_finish H s t h Hn. constructor; simpl; auto.
-    intros h0. rewrite (cnt_set_nth _ _ _ _ _ Hn). rewrite bump_spec, Ic. simpl. unfold b2z.
-    destruct o; simpl; destruct (Nat.eqb h0 h); lia.
-  - (* record *) inv_record H c s t h Hn Hft.
-    + constructor; simpl; auto.
-      * intros h0. rewrite (cnt_set_nth _ _ _ _ _ Hn). rewrite Ic. simpl. destruct again; simpl; lia.
-      * intros h0. rewrite cnt_app, bump_spec, If. simpl. unfold for_host. simpl.
-        destruct (Nat.eqb h0 h); lia.
-      * intros P. rewrite map_app, !cnt_app, Il. simpl. unfold deadline. simpl. lia.
-      * intros e He. apply in_app_or in He as [He|He]; [apply Ip; exact He|].
-        destruct He as [<-|[]]. simpl. lia.
-      * intros Hoff. apply Z.ltb_lt in Hft. lia.
-    + constructor; simpl; auto.
-      intros h0. rewrite (cnt_set_nth _ _ _ _ _ Hn). rewrite Ic. simpl. destruct again; simpl; lia.
-  - (* fire *) inv_fire H s k h d Hn Hdue. constructor; simpl; auto.
-    + intros h0. rewrite (cnt_remove_nth _ _ _ _ Hn). rewrite bump_spec, If. unfold for_host, b2z. simpl.
-      destruct (Nat.eqb h0 h); lia.
-    + intros P. rewrite (cnt_remove_nth _ _ _ _ Hn). rewrite Il. unfold b2z. destruct (P (h, d)); lia.
-    + intros e [<-|He]; [simpl; apply Z.leb_le; exact Hdue | apply Id; exact He].
-    + intros Hoff. rewrite (Io Hoff) in Hn. destruct k; discriminate.
-  - (* tick *) inv_tick H d Hd. apply Z.leb_le in Hd. constructor; simpl; auto.
-    + intros e He. specialize (Id e He). lia.
-    + intros e He. specialize (Ip e He). lia.
+  unfold full. intros F Hm. apply andb_false_iff in F as [F|F].
+  - apply Z.ltb_ge in F. lia.
+  - apply Z.leb_gt in F. exact F.
 Qed.
 
-Lemma run_inv c sel ls : forall s s', Inv c s -> run c sel s ls = Some s' -> Inv c s'.
+(* a thread step that changes no counter: the thread moves between two program counters that are not Forwarding *)
+Lemma inv_thread_move c s t q p :
+  Inv c s -> nth_error (threads s) t = Some q ->
+  (forall h, is_fwd h q = false) -> (forall h, is_fwd h p = false) -> acq_ok c p ->
+  Inv c (set_threads s (set_nth (threads s) t p)).
+Proof.
+  intros [Ic If Id Ip Io Ia Icap] Hn Hq Hp Hok. constructor; sset; auto.
+  - intros h. rewrite (cnt_set_nth _ _ _ _ _ Hn), Hq, Hp, Ic. simpl. lia.
+  - intros p0 H0. apply in_set_nth in H0 as [->|H0]; [exact Hok | exact (Ia _ H0)].
+Qed.
+
+Lemma read_next_selecting c s h obs cur p :
+  read_next c s h obs cur = Some p -> exists obs' cur', p = Selecting obs' cur'.
+Proof.
+  unfold read_next. intros H. destruct cur as [[h' st]|].
+  - destruct (Nat.eqb h h'); [|discriminate]. destruct st; injection H as <-.
+    + eauto.
+    + destruct (c_max_fails c <=? fails s h); eauto.
+  - injection H as <-. destruct (unhealthy s h); eauto.
+Qed.
+
+Lemma step_inv c pol s l s' : Inv c s -> step c pol s l = Some s' -> Inv c s'.
+Proof.
+  intros I H. destruct l.
+  - (* spawn *) unfold step in H. injection H as <-. destruct I as [Ic If Id Ip Io Ia Icap].
+    constructor; sset; auto.
+    + intros h. rewrite cnt_app. simpl. rewrite Ic. lia.
+    + intros p H0. apply in_app_or in H0 as [H0|[<-|[]]]; [exact (Ia _ H0) | exact Logic.I].
+  - (* select starts *) open_thread H s t Hn. injection H as <-.
+    apply (inv_thread_move _ _ _ _ _ I Hn); simpl; auto.
+  - (* one load of an availability read *) open_thread H s t Hn.
+    destruct (read_next c s h obs cur) as [p|] eqn:Er; [|discriminate]. injection H as <-.
+    destruct (read_next_selecting _ _ _ _ _ _ Er) as (obs' & cur' & ->).
+    apply (inv_thread_move _ _ _ _ _ I Hn); simpl; auto.
+  - (* select returns *) open_thread H s t Hn. destruct cur; [discriminate|].
+    destruct (pol obs ho); [|discriminate]. injection H as <-.
+    pose proof (inv_thread_move _ _ _ _ (Selected ho) I Hn) as I'.
+    destruct I' as [Ic If Id Ip Io Ia Icap]; simpl; auto. constructor; sset; auto.
+  - (* acquireConn: load *) open_thread H s t Hn. injection H as <-.
+    apply (inv_thread_move _ _ _ _ _ I Hn); simpl; auto.
+    + intros h0. destruct (full c s h); reflexivity.
+    + destruct (full c s h) eqn:F; simpl; [exact Logic.I|]. exact (full_false_lt _ _ _ F).
+  - (* acquireConn: compare-and-swap *) open_thread H s t Hn. destruct (conns s h =? n) eqn:E.
+    + injection H as <-. apply Z.eqb_eq in E. destruct I as [Ic If Id Ip Io Ia Icap].
+      pose proof (Ia _ (nth_error_In _ _ Hn)) as Hok. simpl in Hok.
+      constructor; sset; auto.
+      * intros h0. rewrite (cnt_set_nth _ _ _ _ _ Hn). rewrite bump_spec, Ic. simpl. unfold b2z.
+        destruct (Nat.eqb h0 h); lia.
+      * intros p H0. apply in_set_nth in H0 as [->|H0]; [exact Logic.I | exact (Ia _ H0)].
+      * intros Hm h0. rewrite bump_spec. destruct (Nat.eqb h0 h) eqn:E0; [|specialize (Icap Hm h0); lia].
+        apply Nat.eqb_eq in E0. subst h0. specialize (Hok Hm). lia.
+    + injection H as <-. apply (inv_thread_move _ _ _ _ _ I Hn); simpl; auto.
+  - (* no host *) open_thread H s t Hn. injection H as <-.
+    apply (inv_thread_move _ _ _ _ _ I Hn); simpl; auto; destruct again; simpl; auto.
+  - (* finish *) open_thread H s t Hn. injection H as <-. destruct I as [Ic If Id Ip Io Ia Icap].
+    constructor; sset; auto.
+    + intros h0. rewrite (cnt_set_nth _ _ _ _ _ Hn). rewrite bump_spec, Ic. simpl. unfold b2z.
+      destruct o; simpl; destruct (Nat.eqb h0 h); lia.
+    + intros p H0. apply in_set_nth in H0 as [->|H0]; [destruct o; exact Logic.I | exact (Ia _ H0)].
+    + intros Hm h0. rewrite bump_spec. specialize (Icap Hm h0). destruct (Nat.eqb h0 h); lia.
+  - (* record *) open_thread H s t Hn. destruct (0 <? c_fail_timeout c) eqn:Hft.
+    + injection H as <-. apply Z.ltb_lt in Hft. destruct I as [Ic If Id Ip Io Ia Icap].
+      constructor; sset; auto.
+      * intros h0. rewrite (cnt_set_nth _ _ _ _ _ Hn). rewrite Ic. simpl. destruct again; simpl; lia.
+      * intros h0. unfold pending in *. sset. rewrite cnt_app, bump_spec, If. simpl. unfold on_host, asleep. simpl.
+        destruct (Nat.eqb h0 h); simpl; lia.
+      * intros f w Hf Hw. apply in_app_or in Hf as [Hf|[<-|[]]]; [exact (Id _ _ Hf Hw) | discriminate Hw].
+      * intros f Hf. apply in_app_or in Hf as [Hf|[<-|[]]]; [exact (Ip _ Hf) | simpl; lia].
+      * intros Hoff. lia.
+      * intros p H0. apply in_set_nth in H0 as [->|H0]; [destruct again; exact Logic.I | exact (Ia _ H0)].
+    + injection H as <-. apply (inv_thread_move _ _ _ _ _ I Hn); simpl; auto; destruct again; simpl; auto.
+  - (* an expiry goroutine runs *) unfold step in H.
+    destruct (nth_error (flog s) k) as [f|] eqn:Hn; [|discriminate].
+    destruct (asleep f && (f_at f + c_fail_timeout c <=? now s)) eqn:G; [|discriminate].
+    injection H as <-. apply andb_true_iff in G as [Ga Gd]. apply Z.leb_le in Gd.
+    destruct I as [Ic If Id Ip Io Ia Icap]. constructor; sset; auto.
+    + intros h0. unfold pending in *. sset. rewrite (cnt_set_nth _ _ _ _ _ Hn). rewrite bump_spec, If.
+      unfold on_host, fire, asleep in *. simpl. unfold b2z. rewrite Ga.
+      destruct (Nat.eqb h0 (f_host f)); simpl; lia.
+    + intros f0 w Hf Hw. apply in_set_nth in Hf as [->|Hf]; [|exact (Id _ _ Hf Hw)].
+      simpl in Hw. injection Hw as <-. simpl. lia.
+    + intros f0 Hf. apply in_set_nth in Hf as [->|Hf]; [|exact (Ip _ Hf)].
+      simpl. exact (Ip _ (nth_error_In _ _ Hn)).
+    + intros Hoff. rewrite (Io Hoff) in Hn. destruct k; discriminate.
+  - (* tick *) unfold step in H. destruct (0 <=? d) eqn:Hd; [|discriminate]. injection H as <-.
+    apply Z.leb_le in Hd. destruct I as [Ic If Id Ip Io Ia Icap]. constructor; sset; auto.
+    + intros f w Hf Hw. specialize (Id _ _ Hf Hw). lia.
+    + intros f Hf. specialize (Ip _ Hf). lia.
+  - (* health-check verdict *) unfold step in H. injection H as <-.
+    destruct I as [Ic If Id Ip Io Ia Icap]. constructor; sset; auto.
+Qed.
+
+Lemma run_inv c pol ls : forall s s', Inv c s -> run c pol s ls = Some s' -> Inv c s'.
 Proof.
   induction ls as [|l ls IH]; intros s s' HI H; simpl in H.
   - injection H as <-. exact HI.
-  - destruct (step c sel s l) as [s1|] eqn:E; [|discriminate].
+  - destruct (step c pol s l) as [s1|] eqn:E; [|discriminate].
     apply (IH s1 s'); [exact (step_inv _ _ _ _ _ HI E) | exact H].
 Qed.
 
-Lemma reachable_inv c sel s : reachable c sel s -> Inv c s.
-Proof. intros (r & ls & H). exact (run_inv _ _ _ _ _ (inv_init c r) H). Qed.
+Lemma reachable_inv c pol s : reachable c pol s -> Inv c s.
+Proof. intros (r & u & ls & H). exact (run_inv _ _ _ _ _ (inv_init c r u) H). Qed.
 
-Lemma run_app c sel l1 : forall l2 s s1 s2,
-  run c sel s l1 = Some s1 -> run c sel s1 l2 = Some s2 -> run c sel s (l1 ++ l2) = Some s2.
+Lemma run_app c pol l1 : forall l2 s s1 s2,
+  run c pol s l1 = Some s1 -> run c pol s1 l2 = Some s2 -> run c pol s (l1 ++ l2) = Some s2.
 Proof.
   induction l1 as [|l l1 IH]; intros l2 s s1 s2 H1 H2; simpl in *.
   - injection H1 as ->. exact H2.
-  - destruct (step c sel s l) as [s'|]; [|discriminate]. exact (IH _ _ _ _ H1 H2).
+  - destruct (step c pol s l) as [s'|]; [|discriminate]. exact (IH _ _ _ _ H1 H2).
 Qed.
 
-Lemma reachable_run c sel s ls s' : reachable c sel s -> run c sel s ls = Some s' -> reachable c sel s'.
-Proof. intros (r & l0 & H0) H. exists r, (l0 ++ ls). exact (run_app _ _ _ _ _ _ _ H0 H). Qed.
+Lemma run_app_inv c pol l1 : forall l2 s s2,
+  run c pol s (l1 ++ l2) = Some s2 -> exists s1, run c pol s l1 = Some s1 /\ run c pol s1 l2 = Some s2.
+Proof.
+  induction l1 as [|l l1 IH]; intros l2 s s2 H; simpl in *.
+  - exists s. split; [reflexivity | exact H].
+  - destruct (step c pol s l) as [s'|]; [|discriminate]. exact (IH _ _ _ H).
+Qed.
+
+Lemma reachable_run c pol s ls s' : reachable c pol s -> run c pol s ls = Some s' -> reachable c pol s'.
+Proof. intros (r & u & l0 & H0) H. exists r, u, (l0 ++ ls). exact (run_app _ _ _ _ _ _ _ H0 H). Qed.
 
 (* ---------- in-flight accounting ---------- *)
-Lemma conns_counts_forwarding c sel s h :
-  reachable c sel s -> conns s h = cnt (is_fwd h) (threads s).
+Lemma conns_counts_forwarding c pol s h :
+  reachable c pol s -> conns s h = cnt (is_fwd h) (threads s).
 Proof. intros R. apply (inv_conns _ _ (reachable_inv _ _ _ R)). Qed.
 
-Lemma conns_bounds c sel s h :
-  reachable c sel s -> 0 <= conns s h <= Z.of_nat (length (threads s)).
+Lemma conns_bounds c pol s h :
+  reachable c pol s -> 0 <= conns s h <= Z.of_nat (length (threads s)).
 Proof.
   intros R. rewrite (conns_counts_forwarding _ _ _ h R).
   split; [apply cnt_nonneg | apply cnt_le_length].
 Qed.
 
-Lemma conns_zero_when_none_forwarding c sel s h :
-  reachable c sel s -> (forall p, In p (threads s) -> p <> Forwarding h) -> conns s h = 0.
+Lemma conns_zero_when_none_forwarding c pol s h :
+  reachable c pol s -> (forall p, In p (threads s) -> p <> Forwarding h) -> conns s h = 0.
 Proof.
   intros R Hn. rewrite (conns_counts_forwarding _ _ _ h R). apply cnt_zero.
   intros p Hp. destruct p; simpl; try reflexivity.
@@ -200,330 +270,934 @@ Proof.
   apply Nat.eqb_eq in E. subst h0. exfalso. exact (Hn _ Hp eq_refl).
 Qed.
 
-Lemma conns_zero_at_quiescence c sel s :
-  reachable c sel s -> forallb is_done (threads s) = true -> forall h, conns s h = 0.
+Lemma conns_zero_at_quiescence c pol s :
+  reachable c pol s -> forallb is_done (threads s) = true -> forall h, conns s h = 0.
 Proof.
-  intros R Hd h. apply (conns_zero_when_none_forwarding c sel); [exact R|].
+  intros R Hd h. apply (conns_zero_when_none_forwarding c pol); [exact R|].
   intros p Hp E. rewrite forallb_forall in Hd. specialize (Hd p Hp). subst p. discriminate.
 Qed.
 
-(* ---------- failure accounting ---------- *)
-Lemma fails_counts_timers c sel s h :
-  reachable c sel s -> fails s h = cnt (for_host h) (timers s).
+(* a request in its retry loop (not between acquire and release) holds no slot: Conns counts the
+   Forwarding program counters and nothing else *)
+Lemma acquiring_below_cap c pol s t h n :
+  reachable c pol s -> nth_error (threads s) t = Some (Acquiring h n) -> 0 < c_max_conns c -> n < c_max_conns c.
+Proof. intros R Hn. exact (inv_acq _ _ (reachable_inv _ _ _ R) _ (nth_error_In _ _ Hn)). Qed.
+
+Lemma conns_le_max c pol s h :
+  0 < c_max_conns c -> reachable c pol s -> conns s h <= c_max_conns c.
+Proof. intros Hm R. exact (inv_cap _ _ (reachable_inv _ _ _ R) Hm h). Qed.
+
+Lemma forwarding_le_max c pol s h :
+  0 < c_max_conns c -> reachable c pol s -> cnt (is_fwd h) (threads s) <= c_max_conns c.
+Proof.
+  intros Hm R. rewrite <- (conns_counts_forwarding _ _ _ h R). exact (conns_le_max _ _ _ h Hm R).
+Qed.
+
+(* ---------- failure accounting: no assumption about when the expiry goroutines run ---------- *)
+(* Fails h = number of failures of h whose expiry event has not fired *)
+Lemma fails_counts_pending c pol s h : reachable c pol s -> fails s h = pending s h.
 Proof. intros R. apply (inv_fails _ _ (reachable_inv _ _ _ R)). Qed.
 
-Lemma unexpired_as_timers c s h :
-  Inv c s ->
-  unexpired c s h = cnt (fun e => Nat.eqb h (fst e) && (now s <? snd e)) (timers s).
+(* an expiry event fires fail_timeout after its failure or later, never earlier *)
+Lemma expiry_not_before_fail_timeout c pol s f w :
+  reachable c pol s -> In f (flog s) -> f_fired f = Some w -> f_at f + c_fail_timeout c <= w <= now s.
+Proof. intros R. apply (inv_fired _ _ (reachable_inv _ _ _ R)). Qed.
+
+(* so a failure younger than fail_timeout is still counted *)
+Lemma young_failure_asleep c pol s f :
+  reachable c pol s -> In f (flog s) -> now s < f_at f + c_fail_timeout c -> f_fired f = None.
 Proof.
-  intros I. unfold unexpired.
-  pose proof (inv_log _ _ I (fun e => Nat.eqb h (fst e) && (now s <? snd e))) as L.
-  rewrite cnt_map in L. simpl in L. rewrite L.
-  rewrite (cnt_zero _ (fired s)); [lia|].
-  intros e He. pose proof (inv_fired _ _ I e He) as Hd.
-  destruct (Nat.eqb h (fst e)); simpl; [|reflexivity]. apply Z.ltb_ge. exact Hd.
+  intros R Hf Hy. destruct (f_fired f) as [w|] eqn:E; [|reflexivity].
+  pose proof (expiry_not_before_fail_timeout _ _ _ _ _ R Hf E). lia.
 Qed.
 
-Lemma fails_ge_unexpired c sel s h :
-  reachable c sel s -> unexpired c s h <= fails s h.
+Lemma fails_ge_unexpired c pol s h :
+  reachable c pol s -> unexpired c s h <= fails s h.
 Proof.
-  intros R. pose proof (reachable_inv _ _ _ R) as I.
-  rewrite (unexpired_as_timers _ _ _ I), (inv_fails _ _ I).
-  apply cnt_mono. intros e _ H. unfold for_host. apply andb_true_iff in H as [H _]. exact H.
+  intros R. rewrite (fails_counts_pending _ _ _ h R). unfold unexpired, pending.
+  apply cnt_mono. intros f Hf H. apply andb_true_iff in H as [H1 H2]. apply Z.ltb_lt in H2.
+  rewrite H1. unfold asleep. rewrite (young_failure_asleep _ _ _ _ R Hf H2). reflexivity.
 Qed.
 
-Lemma fails_counts_unexpired c sel s h :
-  reachable c sel s -> prompt s -> fails s h = unexpired c s h.
+Lemma fails_counts_unexpired c pol s h :
+  reachable c pol s -> prompt c s -> fails s h = unexpired c s h.
 Proof.
-  intros R Pr. pose proof (reachable_inv _ _ _ R) as I.
-  rewrite (unexpired_as_timers _ _ _ I), (inv_fails _ _ I).
-  apply cnt_ext. intros e He. unfold for_host.
-  assert (E : (now s <? snd e) = true) by (apply Z.ltb_lt; exact (Pr e He)).
-  rewrite E, andb_true_r. reflexivity.
+  intros R Pr. rewrite (fails_counts_pending _ _ _ h R). unfold unexpired, pending.
+  apply cnt_ext. intros f Hf. destruct (on_host h f); simpl; [|reflexivity].
+  unfold asleep. destruct (f_fired f) as [w|] eqn:E.
+  - pose proof (expiry_not_before_fail_timeout _ _ _ _ _ R Hf E). symmetry. apply Z.ltb_ge. lia.
+  - symmetry. apply Z.ltb_lt. exact (Pr f Hf E).
 Qed.
 
-Lemma fails_nonneg c sel s h : reachable c sel s -> 0 <= fails s h.
-Proof. intros R. rewrite (fails_counts_timers _ _ _ h R). apply cnt_nonneg. Qed.
+Lemma fails_nonneg c pol s h : reachable c pol s -> 0 <= fails s h.
+Proof. intros R. rewrite (fails_counts_pending _ _ _ h R). apply cnt_nonneg. Qed.
 
-Lemma fails_zero_when_all_expired c sel s h :
-  reachable c sel s -> prompt s ->
-  (forall e, In e (flog s) -> fst e = h -> snd e + c_fail_timeout c <= now s) ->
+Lemma fails_zero_when_all_expired c pol s h :
+  reachable c pol s -> prompt c s ->
+  (forall f, In f (flog s) -> f_host f = h -> f_at f + c_fail_timeout c <= now s) ->
   fails s h = 0.
 Proof.
   intros R Pr Hall. rewrite (fails_counts_unexpired _ _ _ h R Pr). unfold unexpired.
-  apply cnt_zero. intros e He.
-  destruct (Nat.eqb h (fst e)) eqn:E; simpl; [|reflexivity].
-  apply Nat.eqb_eq in E. apply Z.ltb_ge. apply Hall; [exact He | symmetry; exact E].
+  apply cnt_zero. intros f Hf. unfold on_host.
+  destruct (Nat.eqb h (f_host f)) eqn:E; simpl; [|reflexivity].
+  apply Nat.eqb_eq in E. apply Z.ltb_ge. apply Hall; [exact Hf | symmetry; exact E].
 Qed.
 
-Lemma fails_zero_without_timers c sel s h :
-  reachable c sel s -> timers s = [] -> fails s h = 0.
-Proof. intros R E. rewrite (fails_counts_timers _ _ _ h R), E. reflexivity. Qed.
-
-Lemma no_counting_when_disabled c sel s h :
-  reachable c sel s -> c_fail_timeout c <= 0 -> fails s h = 0.
+(* once every expiry event of h has fired, Fails h is zero — whenever that happens *)
+Lemma fails_zero_when_all_fired c pol s h :
+  reachable c pol s -> (forall f, In f (flog s) -> f_host f = h -> f_fired f <> None) -> fails s h = 0.
 Proof.
-  intros R Hoff. apply (fails_zero_without_timers c sel); [exact R|].
-  exact (inv_off _ _ (reachable_inv _ _ _ R) Hoff).
+  intros R Hall. rewrite (fails_counts_pending _ _ _ h R). unfold pending. apply cnt_zero.
+  intros f Hf. unfold on_host. destruct (Nat.eqb h (f_host f)) eqn:E; simpl; [|reflexivity].
+  apply Nat.eqb_eq in E. unfold asleep. destruct (f_fired f) eqn:F; [reflexivity|].
+  exfalso. exact (Hall f Hf (eq_sym E) F).
 Qed.
 
-Lemma down_iff_maxfails c sel s h :
-  reachable c sel s -> prompt s ->
-  (down c s h = true <-> c_unhealthy c h = true \/ c_max_fails c <= unexpired c s h).
+Lemma no_counting_when_disabled c pol s h :
+  reachable c pol s -> c_fail_timeout c <= 0 -> fails s h = 0.
+Proof.
+  intros R Hoff. rewrite (fails_counts_pending _ _ _ h R). unfold pending.
+  rewrite (inv_off _ _ (reachable_inv _ _ _ R) Hoff). reflexivity.
+Qed.
+
+(* down exactly while unhealthy or at least max_fails failures whose expiry has not fired *)
+Lemma down_iff_pending c pol s h :
+  reachable c pol s ->
+  (down c s h = true <-> unhealthy s h = true \/ c_max_fails c <= pending s h).
+Proof.
+  intros R. unfold down. rewrite (fails_counts_pending _ _ _ h R).
+  rewrite orb_true_iff, Z.leb_le. reflexivity.
+Qed.
+
+Lemma down_iff_maxfails c pol s h :
+  reachable c pol s -> prompt c s ->
+  (down c s h = true <-> unhealthy s h = true \/ c_max_fails c <= unexpired c s h).
 Proof.
   intros R Pr. unfold down. rewrite (fails_counts_unexpired _ _ _ h R Pr).
   rewrite orb_true_iff, Z.leb_le. reflexivity.
 Qed.
 
-Lemma down_while_maxfails_unexpired c sel s h :
-  reachable c sel s ->
-  c_unhealthy c h = true \/ c_max_fails c <= unexpired c s h -> down c s h = true.
+Lemma down_while_maxfails_unexpired c pol s h :
+  reachable c pol s ->
+  unhealthy s h = true \/ c_max_fails c <= unexpired c s h -> down c s h = true.
 Proof.
   intros R H. unfold down. apply orb_true_iff. destruct H as [H|H]; [left; exact H|right].
   apply Z.leb_le. pose proof (fails_ge_unexpired _ _ _ h R). lia.
 Qed.
 
-Lemma never_down_when_disabled c sel s h :
-  reachable c sel s -> c_fail_timeout c <= 0 -> 1 <= c_max_fails c -> down c s h = c_unhealthy c h.
+Lemma never_down_when_disabled c pol s h :
+  reachable c pol s -> c_fail_timeout c <= 0 -> 1 <= c_max_fails c -> down c s h = unhealthy s h.
 Proof.
   intros R Hoff Hm. unfold down. rewrite (no_counting_when_disabled _ _ _ h R Hoff).
   assert (E : (c_max_fails c <=? 0) = false) by (apply Z.leb_gt; lia).
   rewrite E, orb_false_r. reflexivity.
 Qed.
 
-(* ---------- the counters really do return to zero: time passes, the sleeping goroutines run ---------- *)
-Fixpoint maxdl (l : list (nat * Z)) : Z :=
-  match l with [] => 0 | e :: r => Z.max (snd e) (maxdl r) end.
+(* ---- why the three seeded changes are wrong ---- *)
+(* a failure is recorded whatever the state of the host: also when it is already down *)
+Lemma failure_recorded_in_every_state c pol s t h again s' :
+  nth_error (threads s) t = Some (Failed h) -> 0 < c_fail_timeout c ->
+  step c pol s (LRecord t again) = Some s' ->
+  fails s' h = fails s h + 1 /\
+  flog s' = flog s ++ [{| f_host := h; f_at := now s; f_fired := None |}] /\
+  now s' = now s /\ nth_error (threads s') t = Some (retry_pc again).
+Proof.
+  intros Hn Hft H. unfold step in H. rewrite Hn in H.
+  assert (E : (0 <? c_fail_timeout c) = true) by (apply Z.ltb_lt; exact Hft). rewrite E in H.
+  injection H as <-. sset. repeat split; [apply bump_same | exact (nth_error_set_nth _ _ _ _ Hn)].
+Qed.
 
-Lemma maxdl_ge l e : In e l -> snd e <= maxdl l.
+(* what has been recorded stays in the log (its host and time never change) *)
+Definition logged (s : state) (h : nat) (a : Z) : Prop :=
+  exists f, In f (flog s) /\ f_host f = h /\ f_at f = a.
+
+Lemma in_set_nth_inv {A} (l : list A) k v x y :
+  nth_error l k = Some y -> In x l -> x = y \/ In x (set_nth l k v).
+Proof.
+  revert k; induction l as [|z l IH]; intros [|k] Hn Hx; simpl in *; try discriminate.
+  - injection Hn as ->. destruct Hx as [->|Hx]; [left; reflexivity | right; right; exact Hx].
+  - destruct Hx as [->|Hx]; [right; left; reflexivity|].
+    destruct (IH k Hn Hx) as [E|E]; [left; exact E | right; right; exact E].
+Qed.
+
+Lemma in_set_nth_new {A} (l : list A) k v y : nth_error l k = Some y -> In v (set_nth l k v).
+Proof.
+  revert k; induction l as [|z l IH]; intros [|k] Hn; simpl in *; try discriminate.
+  - left; reflexivity.
+  - right. exact (IH k Hn).
+Qed.
+
+Lemma step_logged c pol s l s' h a : step c pol s l = Some s' -> logged s h a -> logged s' h a.
+Proof.
+  intros H (f & Hf & Hh & Ha). destruct l; unfold step in H.
+  - injection H as <-. exists f; auto.
+  - destruct (nth_error (threads s) t) as [[| | | | | |]|]; try discriminate. injection H as <-. exists f; auto.
+  - destruct (nth_error (threads s) t) as [[|obs cur| | | | |]|]; try discriminate.
+    match type of H with match ?rn with _ => _ end = _ => destruct rn; [|discriminate] end. injection H as <-. exists f; auto.
+  - destruct (nth_error (threads s) t) as [[|obs [?|]| | | | |]|]; try discriminate.
+    destruct (pol obs ho); [|discriminate]. injection H as <-. exists f; auto.
+  - destruct (nth_error (threads s) t) as [[| |[x|]| | | |]|]; try discriminate. injection H as <-. exists f; auto.
+  - destruct (nth_error (threads s) t) as [[| | |x n| | |]|]; try discriminate.
+    destruct (conns s x =? n); injection H as <-; exists f; auto.
+  - destruct (nth_error (threads s) t) as [[| |[x|]| | | |]|]; try discriminate. injection H as <-. exists f; auto.
+  - destruct (nth_error (threads s) t) as [[| | | |x| |]|]; try discriminate. injection H as <-. exists f; auto.
+  - destruct (nth_error (threads s) t) as [[| | | | |x|]|]; try discriminate.
+    destruct (0 <? c_fail_timeout c); injection H as <-; exists f; sset; auto.
+    repeat split; auto. apply in_or_app. left. exact Hf.
+  - destruct (nth_error (flog s) k) as [g|] eqn:Hn; [|discriminate].
+    destruct (asleep g && (f_at g + c_fail_timeout c <=? now s)); [|discriminate]. injection H as <-. sset.
+    destruct (in_set_nth_inv _ k (fire g (now s)) _ _ Hn Hf) as [E|E].
+    + subst g. exists (fire f (now s)). repeat split; auto. exact (in_set_nth_new _ _ _ _ Hn).
+    + exists f. auto.
+  - destruct (0 <=? d); [|discriminate]. injection H as <-. exists f; auto.
+  - injection H as <-. exists f; auto.
+Qed.
+
+Lemma run_logged c pol ls : forall s s' h a, run c pol s ls = Some s' -> logged s h a -> logged s' h a.
+Proof.
+  induction ls as [|l ls IH]; intros s s' h a H L; simpl in H.
+  - injection H as <-. exact L.
+  - destruct (step c pol s l) as [s1|] eqn:E; [|discriminate].
+    exact (IH _ _ _ _ H (step_logged _ _ _ _ _ _ _ E L)).
+Qed.
+
+(* a recorded failure is counted until fail_timeout has passed since IT was recorded, whatever
+   happens in between (older failures expiring, the host being down already, health verdicts ...) *)
+Lemma failure_counted_for_fail_timeout c pol s t h again s1 ls s2 :
+  reachable c pol s -> nth_error (threads s) t = Some (Failed h) -> 0 < c_fail_timeout c ->
+  step c pol s (LRecord t again) = Some s1 -> run c pol s1 ls = Some s2 ->
+  now s2 < now s + c_fail_timeout c -> 1 <= fails s2 h.
+Proof.
+  intros R Hn Hft H1 H2 Hy.
+  destruct (failure_recorded_in_every_state _ _ _ _ _ _ _ Hn Hft H1) as (_ & Hl & _ & _).
+  assert (L1 : logged s1 h (now s)).
+  { exists {| f_host := h; f_at := now s; f_fired := None |}. rewrite Hl. repeat split.
+    apply in_or_app. right. left. reflexivity. }
+  destruct (run_logged _ _ _ _ _ _ _ H2 L1) as (f & Hf & Hh & Ha).
+  assert (R2 : reachable c pol s2).
+  { apply (reachable_run _ _ s1 ls); [|exact H2]. apply (reachable_run _ _ s [LRecord t again]); [exact R|].
+    simpl. rewrite H1. reflexivity. }
+  assert (Hs : f_fired f = None) by (apply (young_failure_asleep _ _ _ _ R2 Hf); lia).
+  rewrite (fails_counts_pending _ _ _ h R2). unfold pending.
+  assert (P : (on_host h f && asleep f) = true).
+  { unfold on_host, asleep. rewrite Hh, Nat.eqb_refl, Hs. reflexivity. }
+  clear - Hf P. induction (flog s2) as [|g l IH]; [contradiction|]. simpl.
+  pose proof (cnt_nonneg (fun f0 => on_host h f0 && asleep f0) l).
+  destruct Hf as [->|Hf]; [rewrite P; lia | specialize (IH Hf); destruct (on_host h g && asleep g); lia].
+Qed.
+
+Lemma failure_extends_down_window c pol s t h again s1 ls s2 :
+  reachable c pol s -> nth_error (threads s) t = Some (Failed h) -> 0 < c_fail_timeout c ->
+  step c pol s (LRecord t again) = Some s1 -> run c pol s1 ls = Some s2 ->
+  now s2 < now s + c_fail_timeout c -> c_max_fails c <= 1 -> down c s2 h = true.
+Proof.
+  intros R Hn Hft H1 H2 Hy Hm.
+  pose proof (failure_counted_for_fail_timeout _ _ _ _ _ _ _ _ _ R Hn Hft H1 H2 Hy) as F.
+  unfold down. apply orb_true_iff. right. apply Z.leb_le. lia.
+Qed.
+
+(* one expiry event undoes exactly its own failure: one decrement of that host, every other
+   recorded failure untouched *)
+Lemma expiry_clears_only_its_own_failure c pol s k s' :
+  step c pol s (LFire k) = Some s' ->
+  exists f, nth_error (flog s) k = Some f /\ f_fired f = None /\ f_at f + c_fail_timeout c <= now s /\
+            fails s' (f_host f) = fails s (f_host f) - 1 /\
+            (forall h, h <> f_host f -> fails s' h = fails s h) /\
+            flog s' = set_nth (flog s) k (fire f (now s)) /\
+            (forall j, j <> k -> nth_error (flog s') j = nth_error (flog s) j) /\
+            conns s' = conns s /\ unhealthy s' = unhealthy s /\ threads s' = threads s.
+Proof.
+  intros H. unfold step in H. destruct (nth_error (flog s) k) as [f|] eqn:Hn; [|discriminate].
+  destruct (asleep f && (f_at f + c_fail_timeout c <=? now s)) eqn:G; [|discriminate].
+  injection H as <-. apply andb_true_iff in G as [Ga Gd]. apply Z.leb_le in Gd. sset.
+  exists f. repeat split; auto.
+  - unfold asleep in Ga. destruct (f_fired f); [discriminate | reflexivity].
+  - rewrite bump_same. lia.
+  - intros h Hh. rewrite bump_spec. destruct (Nat.eqb h (f_host f)) eqn:E; [|lia].
+    apply Nat.eqb_eq in E. contradiction.
+  - intros j Hj. apply nth_error_set_nth_other. exact Hj.
+Qed.
+
+(* ---------- the counters really do return to zero: time passes, the sleeping goroutines run ---------- *)
+Fixpoint maxdl (ft : Z) (l : list frec) : Z :=
+  match l with [] => 0 | f :: r => Z.max (f_at f + ft) (maxdl ft r) end.
+
+Lemma maxdl_ge ft l f : In f l -> f_at f + ft <= maxdl ft l.
 Proof.
   induction l as [|x l IH]; intros H; [contradiction|]. simpl.
   destruct H as [<-|H]; [lia|]. specialize (IH H). lia.
 Qed.
 
-Lemma fire_all c sel : forall n s,
-  length (timers s) = n -> (forall e, In e (timers s) -> snd e <= now s) ->
-  exists s', run c sel s (repeat (LFire 0) n) = Some s' /\ timers s' = [] /\
-             threads s' = threads s /\ conns s' = conns s /\ now s' = now s.
+Definition sleepers (s : state) : Z := cnt asleep (flog s).
+
+Lemma fire_all c pol : forall n s,
+  sleepers s = Z.of_nat n ->
+  (forall f, In f (flog s) -> asleep f = true -> f_at f + c_fail_timeout c <= now s) ->
+  exists ls s', run c pol s ls = Some s' /\ (forall f, In f (flog s') -> asleep f = false) /\
+             threads s' = threads s /\ conns s' = conns s /\ now s' = now s /\ unhealthy s' = unhealthy s.
 Proof.
   induction n as [|n IH]; intros s Hl Hd.
-  - exists s. simpl. destruct (timers s); [auto | discriminate].
-  - destruct (timers s) as [|[h d] r] eqn:E; [discriminate|].
-    assert (Hdue : (d <=? now s) = true) by (apply Z.leb_le; apply (Hd (h, d)); left; reflexivity).
-    set (s1 := {| conns := conns s; fails := bump (fails s) h (-1); timers := r; fired := (h, d) :: fired s;
-                  flog := flog s; now := now s; threads := threads s; robin := robin s |}).
-    assert (H1 : step c sel s (LFire 0) = Some s1)
-      by (unfold step; rewrite E; simpl; rewrite Hdue; reflexivity).
-    destruct (IH s1) as (s' & Hr & Ht & Hth & Hc & Hn).
-    + simpl. simpl in Hl. lia.
-    + simpl. intros e He. apply Hd. right. exact He.
-    + exists s'. change (repeat (LFire 0) (S n)) with (LFire 0 :: repeat (LFire 0) n).
-      cbn [run]. rewrite H1. simpl in *. auto.
+  - exists [], s. simpl. repeat split; auto. intros f Hf. exact (cnt_zero_inv _ _ _ Hl Hf).
+  - destruct (cnt_pos_nth asleep (flog s)) as (k & f & Hk & Hf); [unfold sleepers in Hl; lia|].
+    assert (Hdue : (asleep f && (f_at f + c_fail_timeout c <=? now s)) = true).
+    { rewrite Hf. simpl. apply Z.leb_le. exact (Hd f (nth_error_In _ _ Hk) Hf). }
+    set (s1 := set_fails s (bump (fails s) (f_host f) (-1)) (set_nth (flog s) k (fire f (now s)))).
+    assert (H1 : step c pol s (LFire k) = Some s1) by (unfold step; rewrite Hk, Hdue; reflexivity).
+    destruct (IH s1) as (ls & s' & Hr & Ha & Hth & Hc & Hn & Hu).
+    + unfold sleepers, s1. simpl. rewrite (cnt_set_nth _ _ _ _ _ Hk). rewrite Hf. unfold fire, asleep at 2. simpl.
+      unfold sleepers in Hl. unfold b2z. lia.
+    + unfold s1. simpl. intros g Hg Hs. apply in_set_nth in Hg as [->|Hg]; [discriminate Hs | exact (Hd g Hg Hs)].
+    + exists (LFire k :: ls), s'. cbn [run]. rewrite H1. repeat split; auto.
 Qed.
 
-Lemma fails_drain c sel s :
-  reachable c sel s ->
-  exists ls s', run c sel s ls = Some s' /\ reachable c sel s' /\
+Lemma fails_drain c pol s :
+  reachable c pol s ->
+  exists ls s', run c pol s ls = Some s' /\ reachable c pol s' /\
                 (forall h, fails s' h = 0) /\ threads s' = threads s /\ conns s' = conns s.
 Proof.
   intros R.
-  set (d := Z.max 0 (maxdl (timers s) - now s)).
+  set (d := Z.max 0 (maxdl (c_fail_timeout c) (flog s) - now s)).
   assert (Hd : (0 <=? d) = true) by (apply Z.leb_le; unfold d; lia).
-  set (s1 := {| conns := conns s; fails := fails s; timers := timers s; fired := fired s; flog := flog s;
-                now := now s + d; threads := threads s; robin := robin s |}).
-  assert (H1 : step c sel s (LTick d) = Some s1) by (unfold step; rewrite Hd; reflexivity).
-  destruct (fire_all c sel (length (timers s1)) s1 eq_refl) as (s' & Hr & Ht & Hth & Hc & Hn).
-  { simpl. intros e He. pose proof (maxdl_ge _ _ He). unfold d. lia. }
-  exists (LTick d :: repeat (LFire 0) (length (timers s1))), s'.
-  assert (Hrun : run c sel s (LTick d :: repeat (LFire 0) (length (timers s1))) = Some s')
-    by (cbn [run]; rewrite H1; exact Hr).
+  set (s1 := set_now s (now s + d)).
+  assert (H1 : step c pol s (LTick d) = Some s1) by (unfold step; rewrite Hd; reflexivity).
+  pose proof (cnt_nonneg asleep (flog s1)) as Hnn.
+  destruct (fire_all c pol (Z.to_nat (sleepers s1)) s1) as (ls & s' & Hr & Ha & Hth & Hc & Hn & Hu).
+  { unfold sleepers in *. lia. }
+  { unfold s1. simpl. intros f Hf _. pose proof (maxdl_ge (c_fail_timeout c) _ _ Hf). unfold d. lia. }
+  exists (LTick d :: ls), s'.
+  assert (Hrun : run c pol s (LTick d :: ls) = Some s') by (cbn [run]; rewrite H1; exact Hr).
   pose proof (reachable_run _ _ _ _ _ R Hrun) as R'.
   repeat split; auto.
-  intros h. exact (fails_zero_without_timers _ _ _ h R' Ht).
+  intros h. apply (fails_zero_when_all_fired _ _ _ _ R'). intros f Hf _ E.
+  specialize (Ha f Hf). unfold asleep in Ha. rewrite E in Ha. discriminate.
 Qed.
 
-(* ---------- the cap ---------- *)
-Lemma sel_first_sound c : sel_sound c (sel_first c).
+(* ---------- quiescence is stable: nothing but a new request (or nothing at all) changes the counters ---------- *)
+Definition quiescent (s : state) : Prop :=
+  forallb is_done (threads s) = true /\ all_fired s = true.
+
+Lemma step_quiescent c pol s l s' :
+  quiescent s -> is_spawn l = false -> step c pol s l = Some s' -> quiescent s'.
 Proof.
-  intros s h r H. unfold sel_first in H. injection H as H _.
+  intros [Qd Qf] Hl H.
+  assert (D : forall t p, nth_error (threads s) t = Some p -> is_done p = true).
+  { intros t p Hn. rewrite forallb_forall in Qd. exact (Qd _ (nth_error_In _ _ Hn)). }
+  destruct l; try discriminate Hl; try (open_thread H s t Hn; specialize (D _ _ Hn); discriminate D).
+  - unfold step in H. destruct (nth_error (flog s) k) as [f|] eqn:Hn; [|discriminate].
+    destruct (asleep f) eqn:Ha; [|discriminate].
+    unfold all_fired in Qf. rewrite forallb_forall in Qf. specialize (Qf _ (nth_error_In _ _ Hn)).
+    rewrite Ha in Qf. discriminate.
+  - unfold step in H. destruct (0 <=? d); [|discriminate]. injection H as <-. split; assumption.
+  - unfold step in H. injection H as <-. split; assumption.
+Qed.
+
+Lemma quiescent_zero c pol ls : forall s s',
+  reachable c pol s -> quiescent s -> existsb is_spawn ls = false -> run c pol s ls = Some s' ->
+  quiescent s' /\ forall h, conns s' h = 0 /\ fails s' h = 0.
+Proof.
+  induction ls as [|l ls IH]; intros s s' R Q Hl H; simpl in H.
+  - injection H as <-. split; [exact Q|]. destruct Q as [Qd Qf]. intros h. split.
+    + exact (conns_zero_at_quiescence _ _ _ R Qd h).
+    + apply (fails_zero_when_all_fired _ _ _ _ R). intros f Hf _ E.
+      unfold all_fired in Qf. rewrite forallb_forall in Qf. specialize (Qf f Hf). unfold asleep in Qf.
+      rewrite E in Qf. discriminate.
+  - destruct (step c pol s l) as [s1|] eqn:E; [|discriminate].
+    simpl in Hl. apply orb_false_iff in Hl as [Hl1 Hl2].
+    apply (IH s1 s'); auto.
+    + apply (reachable_run _ _ s [l]); [exact R|]. simpl. rewrite E. reflexivity.
+    + exact (step_quiescent _ _ _ _ _ Q Hl1 E).
+Qed.
+
+(* ---------- leaving the window: acquireConn ---------- *)
+Lemma load_refused_or_loaded c pol s t h s' :
+  nth_error (threads s) t = Some (Selected (Some h)) -> step c pol s (LLoad t) = Some s' ->
+  conns s' = conns s /\ fails s' = fails s /\
+  (full c s h = true -> nth_error (threads s') t = Some (Selected None)) /\
+  (full c s h = false -> nth_error (threads s') t = Some (Acquiring h (conns s h))).
+Proof.
+  intros Hn H. unfold step in H. rewrite Hn in H. injection H as <-. sset.
+  repeat split; intros F; rewrite F; exact (nth_error_set_nth _ _ _ _ Hn).
+Qed.
+
+Lemma cas_won_or_lost c pol s t h n s' :
+  nth_error (threads s) t = Some (Acquiring h n) -> step c pol s (LCas t) = Some s' ->
+  (conns s h = n -> nth_error (threads s') t = Some (Forwarding h) /\ conns s' h = conns s h + 1 /\
+                    forall h', h' <> h -> conns s' h' = conns s h') /\
+  (conns s h <> n -> nth_error (threads s') t = Some (Selected (Some h)) /\ conns s' = conns s).
+Proof.
+  intros Hn H. unfold step in H. rewrite Hn in H. destruct (conns s h =? n) eqn:E.
+  - injection H as <-. apply Z.eqb_eq in E. sset. split; [|intros; contradiction]. intros _.
+    repeat split; [exact (nth_error_set_nth _ _ _ _ Hn) | apply bump_same |].
+    intros h' Hh. rewrite bump_spec. destruct (Nat.eqb h' h) eqn:E'; [apply Nat.eqb_eq in E'; contradiction | lia].
+  - injection H as <-. apply Z.eqb_neq in E. sset. split; [intros; contradiction|]. intros _.
+    split; [exact (nth_error_set_nth _ _ _ _ Hn) | reflexivity].
+Qed.
+
+Lemma begin_forwards_unless_full c pol s t h s' :
+  nth_error (threads s) t = Some (Selected (Some h)) -> acquire c pol s t = Some s' ->
+  (full c s h = false -> nth_error (threads s') t = Some (Forwarding h) /\ conns s' h = conns s h + 1) /\
+  (full c s h = true -> nth_error (threads s') t = Some (Selected None) /\ conns s' = conns s).
+Proof.
+  intros Hn H. unfold acquire in H. destruct (step c pol s (LLoad t)) as [s1|] eqn:E1; [|discriminate].
+  destruct (load_refused_or_loaded _ _ _ _ _ _ Hn E1) as (Hc & _ & Hf & Hl).
+  destruct (full c s h) eqn:F.
+  - rewrite (Hf eq_refl) in H. injection H as <-. split; [discriminate|]. intros _. split; [exact (Hf eq_refl) | exact Hc].
+  - rewrite (Hl eq_refl) in H. split; [|discriminate]. intros _.
+    destruct (cas_won_or_lost _ _ _ _ _ _ _ (Hl eq_refl) H) as [Hw _].
+    destruct Hw as (A & B & _); [rewrite Hc; reflexivity|]. rewrite Hc in B. split; assumption.
+Qed.
+
+(* ---------- Select is a sequence of reads: what its answer guarantees ---------- *)
+(* evidence a request inside Select holds about host h: level 1 = Unhealthy was loaded 0, level 2 = and Fails
+   below max_fails, level 3 (and every other k) = and Conns below the cap, i.e. Available() answered true *)
+Definition evid (k : nat) (h : nat) (p : option pc) : Prop :=
+  match p with
+  | Some (Selecting obs cur) =>
+      In (h, true) obs \/
+      match cur with
+      | Some (h', st) => h' = h /\ (k = 1%nat \/ (k = 2%nat /\ st = true))
+      | None => False
+      end
+  | _ => False
+  end.
+(* the fact about the state that a load of that level established *)
+Definition fact (c : config) (k : nat) (s : state) (h : nat) : Prop :=
+  match k with
+  | 1%nat => unhealthy s h = false
+  | 2%nat => fails s h < c_max_fails c
+  | _ => full c s h = false
+  end.
+
+Lemma pc_at_set s t t0 q p :
+  nth_error (threads s) t0 = Some q ->
+  nth_error (threads (set_threads s (set_nth (threads s) t0 p))) t = if Nat.eqb t t0 then Some p else nth_error (threads s) t.
+Proof.
+  intros Hn. simpl. destruct (Nat.eqb t t0) eqn:E.
+  - apply Nat.eqb_eq in E. subst t0. exact (nth_error_set_nth _ _ _ _ Hn).
+  - apply Nat.eqb_neq in E. exact (nth_error_set_nth_other _ _ _ _ E).
+Qed.
+
+Lemma read_next_evid c s h0 obs cur p k h :
+  read_next c s h0 obs cur = Some p -> evid k h (Some p) ->
+  evid k h (Some (Selecting obs cur)) \/ fact c k s h.
+Proof.
+  unfold read_next. intros H Ev. destruct cur as [[h' st]|].
+  - destruct (Nat.eqb h0 h') eqn:E0; [|discriminate]. apply Nat.eqb_eq in E0. subst h'. destruct st.
+    + (* the Conns load *) injection H as <-. simpl in Ev. destruct Ev as [[E|Hi]|[]].
+      * injection E as -> Hf. apply negb_true_iff in Hf.
+        destruct k as [|[|[|k]]]; simpl; [right; exact Hf | left; right; auto | left; right; auto | right; exact Hf].
+      * left. left. exact Hi.
+    + (* the Fails load *) destruct (c_max_fails c <=? fails s h0) eqn:F; injection H as <-; simpl in Ev.
+      * destruct Ev as [[E|Hi]|[]]; [discriminate E | left; left; exact Hi].
+      * apply Z.leb_gt in F. destruct Ev as [Hi|[-> [->|[-> _]]]]; [left; left; exact Hi | left; right; auto | right; exact F].
+  - (* the Unhealthy load *) destruct (unhealthy s h0) eqn:U; injection H as <-; simpl in Ev.
+    + destruct Ev as [[E|Hi]|[]]; [discriminate E | left; left; exact Hi].
+    + destruct Ev as [Hi|[-> [->|[_ E]]]]; [left; left; exact Hi | right; exact U | discriminate E].
+Qed.
+
+Lemma step_evid c pol s l s' t k h :
+  step c pol s l = Some s' -> is_selstart t l = false ->
+  evid k h (nth_error (threads s') t) -> evid k h (nth_error (threads s) t) \/ fact c k s h.
+Proof.
+  intros H Hl Ev.
+  (* a thread step that leaves thread t0 at a program counter outside Select *)
+  assert (K : forall t0 q p, nth_error (threads s) t0 = Some q ->
+              evid k h (nth_error (threads (set_threads s (set_nth (threads s) t0 p))) t) ->
+              (forall o cu, p <> Selecting o cu) -> evid k h (nth_error (threads s) t) \/ fact c k s h).
+  { intros t0 q p Hn Hi Hp. rewrite (pc_at_set _ _ _ _ _ Hn) in Hi.
+    destruct (Nat.eqb t t0); [|left; exact Hi].
+    destruct p; simpl in Hi; try contradiction. exfalso. exact (Hp _ _ eq_refl). }
+  destruct l.
+  - (* spawn *) unfold step in H. injection H as <-. left. simpl in Ev.
+    destruct (nth_error (threads s) t) as [p|] eqn:E.
+    + rewrite nth_error_app1 in Ev by (apply nth_error_Some; congruence). rewrite E in Ev. exact Ev.
+    + apply nth_error_None in E. rewrite nth_error_app2 in Ev by exact E.
+      destruct (t - length (threads s))%nat as [|[|j]]; simpl in Ev; contradiction.
+  - open_thread H s t0 Hn. injection H as <-. simpl in Hl. rewrite (pc_at_set _ _ _ _ _ Hn) in Ev.
+    rewrite Hl in Ev. left. exact Ev.
+  - open_thread H s t0 Hn. destruct (read_next c s h0 obs cur) as [p|] eqn:Er; [|discriminate]. injection H as <-.
+    rewrite (pc_at_set _ _ _ _ _ Hn) in Ev. destruct (Nat.eqb t t0) eqn:E; [|left; exact Ev].
+    apply Nat.eqb_eq in E. subst t0. rewrite Hn. exact (read_next_evid _ _ _ _ _ _ _ _ Er Ev).
+  - open_thread H s t0 Hn. destruct cur; [discriminate|]. destruct (pol obs ho); [|discriminate]. injection H as <-.
+    change (threads (set_robin (set_threads s (set_nth (threads s) t0 (Selected ho))) r))
+      with (threads (set_threads s (set_nth (threads s) t0 (Selected ho)))) in Ev.
+    apply (K _ _ _ Hn Ev). intros ? ? E; discriminate E.
+  - open_thread H s t0 Hn. injection H as <-. apply (K _ _ _ Hn Ev).
+    intros ? ? E. destruct (full c s h0); discriminate E.
+  - open_thread H s t0 Hn. destruct (conns s h0 =? n); injection H as <-.
+    + change (threads (set_conns (set_threads s (set_nth (threads s) t0 (Forwarding h0))) (bump (conns s) h0 1)))
+        with (threads (set_threads s (set_nth (threads s) t0 (Forwarding h0)))) in Ev.
+      apply (K _ _ _ Hn Ev). intros ? ? E; discriminate E.
+    + apply (K _ _ _ Hn Ev). intros ? ? E; discriminate E.
+  - open_thread H s t0 Hn. injection H as <-. apply (K _ _ _ Hn Ev).
+    intros ? ? E. destruct again; discriminate E.
+  - open_thread H s t0 Hn. injection H as <-.
+    change (threads (set_conns (set_threads s (set_nth (threads s) t0 (after_forward o h0))) (bump (conns s) h0 (-1))))
+      with (threads (set_threads s (set_nth (threads s) t0 (after_forward o h0)))) in Ev.
+    apply (K _ _ _ Hn Ev). intros ? ? E. destruct o; discriminate E.
+  - open_thread H s t0 Hn. destruct (0 <? c_fail_timeout c); injection H as <-.
+    + change (threads (set_fails (set_threads s (set_nth (threads s) t0 (retry_pc again))) (bump (fails s) h0 1)
+                 (flog s ++ [{| f_host := h0; f_at := now s; f_fired := None |}])))
+        with (threads (set_threads s (set_nth (threads s) t0 (retry_pc again)))) in Ev.
+      apply (K _ _ _ Hn Ev). intros ? ? E. destruct again; discriminate E.
+    + apply (K _ _ _ Hn Ev). intros ? ? E. destruct again; discriminate E.
+  - unfold step in H. destruct (nth_error (flog s) k0) as [f|]; [|discriminate].
+    destruct (asleep f && (f_at f + c_fail_timeout c <=? now s)); [|discriminate]. injection H as <-.
+    left. exact Ev.
+  - unfold step in H. destruct (0 <=? d); [|discriminate]. injection H as <-. left. exact Ev.
+  - unfold step in H. injection H as <-. left. exact Ev.
+Qed.
+
+Lemma run_evid c pol t k h : forall ls s s',
+  run c pol s ls = Some s' -> existsb (is_selstart t) ls = false ->
+  evid k h (nth_error (threads s') t) ->
+  evid k h (nth_error (threads s) t) \/
+  exists l1 l2 si, ls = l1 ++ l2 /\ run c pol s l1 = Some si /\ fact c k si h.
+Proof.
+  induction ls as [|l ls IH]; intros s s' H Hl Ev; simpl in H.
+  - injection H as <-. left. exact Ev.
+  - destruct (step c pol s l) as [s1|] eqn:E; [|discriminate].
+    simpl in Hl. apply orb_false_iff in Hl as [Hl1 Hl2].
+    destruct (IH _ _ H Hl2 Ev) as [Hi|(l1 & l2 & si & El & Hr & Ha)].
+    + destruct (step_evid _ _ _ _ _ _ _ _ E Hl1 Hi) as [Hi'|Ha]; [left; exact Hi'|].
+      right. exists [], (l :: ls), s. repeat split. exact Ha.
+    + right. exists (l :: l1), l2, si. repeat split; [simpl; rewrite El; reflexivity | simpl; rewrite E; exact Hr | exact Ha].
+Qed.
+
+(* each of the three facts that make the returned host available held in some state between the
+   entry and the return of that Select *)
+Lemma select_result_fact c pol k s0 t mid h r s1 :
+  pol_sound pol -> existsb (is_selstart t) mid = false ->
+  run c pol s0 (LSelStart t :: mid ++ [LSelEnd t (Some h) r]) = Some s1 ->
+  exists l1 l2 si, mid = l1 ++ l2 /\ run c pol s0 (LSelStart t :: l1) = Some si /\ fact c k si h.
+Proof.
+  intros Hs Hm H. cbn [run] in H. destruct (step c pol s0 (LSelStart t)) as [sa|] eqn:Ea; [|discriminate].
+  destruct (run_app_inv _ _ _ _ _ _ H) as (sb & Hmid & Hend). simpl in Hend.
+  destruct (step c pol sb (LSelEnd t (Some h) r)) as [sc|] eqn:Ee; [|discriminate].
+  assert (Hin : evid k h (nth_error (threads sb) t)).
+  { unfold step in Ee. destruct (nth_error (threads sb) t) as [[|obs [?|]| | | | |]|]; try discriminate.
+    destruct (pol obs (Some h)) eqn:P; [|discriminate]. left. exact (Hs _ _ P). }
+  assert (Hemp : nth_error (threads sa) t = Some (Selecting [] None)).
+  { open_thread Ea s0 t Hn. injection Ea as <-. rewrite (pc_at_set _ _ _ _ _ Hn), Nat.eqb_refl. reflexivity. }
+  destruct (run_evid _ _ _ _ _ _ _ _ Hmid Hm Hin) as [Hi|(l1 & l2 & si & El & Hr & Ha)].
+  - rewrite Hemp in Hi. simpl in Hi. destruct Hi as [[]|[]].
+  - exists l1, l2, si. repeat split; [exact El | cbn [run]; rewrite Ea; exact Hr | exact Ha].
+Qed.
+
+Lemma select_result_available_during c pol s0 t mid h r s1 :
+  pol_sound pol -> existsb (is_selstart t) mid = false ->
+  run c pol s0 (LSelStart t :: mid ++ [LSelEnd t (Some h) r]) = Some s1 ->
+  (exists l1 l2 si, mid = l1 ++ l2 /\ run c pol s0 (LSelStart t :: l1) = Some si /\ unhealthy si h = false) /\
+  (exists l1 l2 si, mid = l1 ++ l2 /\ run c pol s0 (LSelStart t :: l1) = Some si /\ fails si h < c_max_fails c) /\
+  (exists l1 l2 si, mid = l1 ++ l2 /\ run c pol s0 (LSelStart t :: l1) = Some si /\ full c si h = false).
+Proof.
+  intros Hs Hm H. repeat split.
+  - exact (select_result_fact c pol 1 _ _ _ _ _ _ Hs Hm H).
+  - exact (select_result_fact c pol 2 _ _ _ _ _ _ Hs Hm H).
+  - exact (select_result_fact c pol 3 _ _ _ _ _ _ Hs Hm H).
+Qed.
+
+Lemma step_unhealthy_stays c pol s l s' h :
+  step c pol s l = Some s' -> is_heal h l = false -> unhealthy s h = true -> unhealthy s' h = true.
+Proof.
+  intros H Hl U. destruct l; unfold step in H.
+  - injection H as <-. exact U.
+  - destruct (nth_error (threads s) t) as [[| | | | | |]|]; try discriminate. injection H as <-. exact U.
+  - destruct (nth_error (threads s) t) as [[|obs cur| | | | |]|]; try discriminate.
+    match type of H with match ?rn with _ => _ end = _ => destruct rn; [|discriminate] end. injection H as <-. exact U.
+  - destruct (nth_error (threads s) t) as [[|obs [?|]| | | | |]|]; try discriminate.
+    destruct (pol obs ho); [|discriminate]. injection H as <-. exact U.
+  - destruct (nth_error (threads s) t) as [[| |[x|]| | | |]|]; try discriminate. injection H as <-. exact U.
+  - destruct (nth_error (threads s) t) as [[| | |x n| | |]|]; try discriminate.
+    destruct (conns s x =? n); injection H as <-; exact U.
+  - destruct (nth_error (threads s) t) as [[| |[x|]| | | |]|]; try discriminate. injection H as <-. exact U.
+  - destruct (nth_error (threads s) t) as [[| | | |x| |]|]; try discriminate. injection H as <-. exact U.
+  - destruct (nth_error (threads s) t) as [[| | | | |x|]|]; try discriminate.
+    destruct (0 <? c_fail_timeout c); injection H as <-; exact U.
+  - destruct (nth_error (flog s) k) as [g|]; [|discriminate].
+    destruct (asleep g && (f_at g + c_fail_timeout c <=? now s)); [|discriminate]. injection H as <-. exact U.
+  - destruct (0 <=? d); [|discriminate]. injection H as <-. exact U.
+  - injection H as <-. simpl. rewrite setb_spec. destruct (Nat.eqb h h0) eqn:E; [|exact U].
+    simpl in Hl. destruct b; [reflexivity|]. rewrite E in Hl. discriminate.
+Qed.
+
+Lemma run_unhealthy_stays c pol h : forall ls s s',
+  run c pol s ls = Some s' -> existsb (is_heal h) ls = false -> unhealthy s h = true -> unhealthy s' h = true.
+Proof.
+  induction ls as [|l ls IH]; intros s s' H Hl U; simpl in H.
+  - injection H as <-. exact U.
+  - destruct (step c pol s l) as [s1|] eqn:E; [|discriminate].
+    simpl in Hl. apply orb_false_iff in Hl as [Hl1 Hl2].
+    exact (IH _ _ H Hl2 (step_unhealthy_stays _ _ _ _ _ _ E Hl1 U)).
+Qed.
+
+(* a host marked unhealthy before the request enters Select, and not declared healthy while that
+   Select runs, is not its answer: no schedule contains such a Select *)
+Lemma unhealthy_before_select_never_selected c pol s0 t mid h r :
+  pol_sound pol -> unhealthy s0 h = true ->
+  existsb (is_selstart t) mid = false -> existsb (is_heal h) mid = false ->
+  run c pol s0 (LSelStart t :: mid ++ [LSelEnd t (Some h) r]) = None.
+Proof.
+  intros Hs U Hm Hh. destruct (run c pol s0 (LSelStart t :: mid ++ [LSelEnd t (Some h) r])) as [s1|] eqn:H; [|reflexivity].
+  exfalso. destruct (select_result_fact c pol 1 _ _ _ _ _ _ Hs Hm H) as (l1 & l2 & si & El & Hr & Ha).
+  assert (Hh1 : existsb (is_heal h) (LSelStart t :: l1) = false).
+  { simpl. rewrite El, existsb_app in Hh. apply orb_false_iff in Hh as [Hh _]. exact Hh. }
+  pose proof (run_unhealthy_stays _ _ _ _ _ _ Hr Hh1 U) as Ui.
+  simpl in Ha. rewrite Ui in Ha. discriminate.
+Qed.
+
+Lemma pol_std_sound n : pol_sound (pol_std n).
+Proof.
+  intros obs h H. unfold pol_std, obs_has in H. apply existsb_exists in H as ([h' b] & Hin & E).
+  simpl in E. apply andb_true_iff in E as [E1 E2]. apply Nat.eqb_eq in E1. subst h'.
+  destruct b; [exact Hin | discriminate].
+Qed.
+
+(* ---------- the concrete policies, read as functions of a stable state ---------- *)
+Lemma pol_first_sound c : psel_sound c (pol_first c).
+Proof.
+  intros s h r H. unfold pol_first in H. injection H as H _.
   apply find_some in H as [_ H]. exact H.
 Qed.
 
 Lemma rr_loop_sound c s n : forall fuel r h r', rr_loop c s n r fuel = (Some h, r') -> available c s h = true.
 Proof.
   induction fuel as [|f IH]; intros r h r' H; simpl in H; [discriminate|].
-  destruct (available c s (N.to_nat (((r + 1) mod U32) mod n))) eqn:E.
+  destruct (available c s (N.to_nat ((r + 1) mod n))) eqn:E.
   - injection H as <- _. exact E.
   - exact (IH _ _ _ H).
 Qed.
 
-Lemma sel_rr_sound c : sel_sound c (sel_rr c).
-Proof.
-  intros s h r H. unfold sel_rr in H.
-  destruct (c_hosts c) as [|[|n]].
-  - discriminate.
-  - destruct (available c s 0%nat) eqn:E; [|discriminate]. injection H as <- _. exact E.
-  - destruct (existsb (available c s) (seq 0 (S (S n)))); [|discriminate].
-    exact (rr_loop_sound _ _ _ _ _ _ _ H).
-Qed.
+Lemma pol_rr_sound c : psel_sound c (pol_rr c).
+Proof. intros s h r H. exact (rr_loop_sound _ _ _ _ _ _ _ H). Qed.
 
-Lemma sel_of_sound pol c : sel_sound c (sel_of pol c).
-Proof. unfold sel_of. destruct (pol =? 0)%N; [apply sel_first_sound | apply sel_rr_sound]. Qed.
+Lemma psel_of_sound pol c : psel_sound c (psel_of pol c).
+Proof. unfold psel_of. destruct (pol =? 0)%N; [apply pol_first_sound | apply pol_rr_sound]. Qed.
+
+(* First answers nil only when no host of the pool is available *)
+Lemma pol_first_complete c s r :
+  pol_first c s = (None, r) -> forall h, (h < c_hosts c)%nat -> available c s h = false.
+Proof.
+  intros H h Hh. unfold pol_first in H. injection H as H _.
+  apply (find_none _ _ H). apply in_seq. lia.
+Qed.
 
 (* the demonstration configuration: one backend, max_conns 1; [sched_window] is the schedule in
    which two requests share the select/increment window *)
 Definition cfg_cap1 : config :=
-  {| c_hosts := 1; c_max_conns := 1; c_max_fails := 1; c_fail_timeout := 10; c_unhealthy := fun _ => false |}.
-Definition sched_window : list label := [LSpawn; LSpawn; LSelect 0; LSelect 1; LBegin 0; LBegin 1].
-
-(* the cap holds in every reachable state: the increment happens only in the atomic step that
-   also sees the host not full *)
-Lemma step_cap c sel s l s' :
-  0 < c_max_conns c -> (forall h, conns s h <= c_max_conns c) -> step c sel s l = Some s' ->
-  forall h, conns s' h <= c_max_conns c.
-Proof.
-  intros Hm HC H. destruct l.
-  - inv_spawn H. exact HC.
-  - inv_select H sel s t o r Hn Hsel. exact HC.
-  - inv_begin H c s t h Hn F; [exact HC|].
-    intros h0. simpl. rewrite bump_spec. destruct (Nat.eqb h0 h) eqn:E; [|specialize (HC h0); lia].
-    apply Nat.eqb_eq in E. subst h0. unfold full in F. apply andb_false_iff in F as [F|F].
-    + apply Z.ltb_ge in F. lia.
-    + apply Z.leb_gt in F. lia.
-  - inv_nohost H s t Hn. exact HC.
-  - inv_finish H s t h Hn. intros h0. simpl. rewrite bump_spec. specialize (HC h0). destruct (Nat.eqb h0 h); lia.
-  - inv_record H c s t h Hn Hft; exact HC.
-  - inv_fire H s k h d Hn Hdue. exact HC.
-  - inv_tick H d Hd. exact HC.
-Qed.
-
-Lemma run_cap c sel ls : forall s s',
-  0 < c_max_conns c -> (forall h, conns s h <= c_max_conns c) -> run c sel s ls = Some s' ->
-  forall h, conns s' h <= c_max_conns c.
-Proof.
-  induction ls as [|l ls IH]; intros s s' Hm HC H; simpl in H.
-  - injection H as <-. exact HC.
-  - destruct (step c sel s l) as [s1|] eqn:E; [|discriminate].
-    exact (IH _ _ Hm (step_cap _ _ _ _ _ Hm HC E) H).
-Qed.
-
-Lemma conns_le_max c sel s h :
-  0 < c_max_conns c -> reachable c sel s -> conns s h <= c_max_conns c.
-Proof.
-  intros Hm (r & ls & H). apply (run_cap c sel ls (init r) s Hm); [|exact H].
-  intros h0. simpl. lia.
-Qed.
-
-Lemma forwarding_le_max c sel s h :
-  0 < c_max_conns c -> reachable c sel s -> cnt (is_fwd h) (threads s) <= c_max_conns c.
-Proof.
-  intros Hm R. rewrite <- (conns_counts_forwarding _ _ _ h R). exact (conns_le_max _ _ _ h Hm R).
-Qed.
-
-(* leaving the window: the request is forwarded to the host it holds exactly when that host is
-   not full at that instant; otherwise it is not counted and takes the no-host path *)
-Lemma nth_error_set_nth {A} (l : list A) t v q : nth_error l t = Some q -> nth_error (set_nth l t v) t = Some v.
-Proof.
-  revert t; induction l as [|x l IH]; intros [|t] H; simpl in *; try discriminate; auto.
-Qed.
-
-Lemma begin_forwards_unless_full c sel s t h s' :
-  nth_error (threads s) t = Some (Selected (Some h)) -> step c sel s (LBegin t) = Some s' ->
-  (full c s h = false -> nth_error (threads s') t = Some (Forwarding h) /\ conns s' h = conns s h + 1) /\
-  (full c s h = true -> nth_error (threads s') t = Some (Selected None) /\ conns s' = conns s).
-Proof.
-  intros Hn H. unfold step in H. rewrite Hn in H.
-  destruct (full c s h) eqn:F; injection H as <-; simpl; split; intros E; try discriminate E.
-  - split; [exact (nth_error_set_nth _ _ _ _ Hn) | reflexivity].
-  - split; [exact (nth_error_set_nth _ _ _ _ Hn) | apply bump_same].
-Qed.
-
-(* a sound selector never hands out a host while it is observed full or down *)
-Lemma select_not_full c sel s t s' h :
-  sel_sound c sel -> step c sel s (LSelect t) = Some s' ->
-  nth_error (threads s') t = Some (Selected (Some h)) -> available c s h = true.
-Proof.
-  intros Hs H Hn. inv_select H sel s t o r Hn0 Hsel. simpl in Hn.
-  rewrite (nth_error_set_nth _ _ _ _ Hn0) in Hn. injection Hn as ->. exact (Hs _ _ _ Hsel).
-Qed.
+  {| c_hosts := 1; c_max_conns := 1; c_max_fails := 1; c_fail_timeout := 10 |}.
+Definition healthy : nat -> bool := fun _ => false.
+Definition sel0 (t : nat) : list label :=
+  [LSelStart t; LSelRead t 0%nat; LSelRead t 0%nat; LSelRead t 0%nat; LSelEnd t (Some 0%nat) 0%N].
+Definition sched_window : list label :=
+  [LSpawn; LSpawn] ++ sel0 0 ++ sel0 1 ++ [LLoad 0; LCas 0; LLoad 1].
+(* both requests load Conns = 0 before either swaps: the second swap is lost and the request loads again *)
+Definition sched_lost_cas : list label :=
+  [LSpawn; LSpawn] ++ sel0 0 ++ sel0 1 ++ [LLoad 0; LLoad 1; LCas 0; LCas 1; LLoad 1].
+(* two requests in flight, max_fails 1: the first failure takes the host down, the second arrives while it is down *)
+Definition cfg_free : config :=
+  {| c_hosts := 1; c_max_conns := 0; c_max_fails := 1; c_fail_timeout := 10 |}.
+Definition sched_two_failures : list label :=
+  [LSpawn; LSpawn] ++ sel0 0 ++ sel0 1 ++
+  [LLoad 0; LCas 0; LLoad 1; LCas 1; LFinish 0 OError; LRecord 0 false; LTick 6; LFinish 1 OError].
 
 (* ---------- the states the correspondence check evaluates are reachable states ---------- *)
 Lemma repeat_snoc {A} (x : A) n : repeat x n ++ [x] = repeat x (S n).
 Proof. induction n as [|n IH]; simpl; [reflexivity|]. rewrite IH. reflexivity. Qed.
 
-Lemma spawn_run c sel r : forall m k,
-  run c sel {| conns := fun _ => 0; fails := fun _ => 0; timers := []; fired := []; flog := []; now := 0;
-               threads := repeat Idle k; robin := r |} (repeat LSpawn m) = Some (init_threads r (k + m)).
+Lemma spawn_run c pol r u : forall m k,
+  run c pol (init_threads r u k) (repeat LSpawn m) = Some (init_threads r u (k + m)).
 Proof.
   induction m as [|m IH]; intros k; simpl.
   - rewrite Nat.add_0_r. reflexivity.
-  - rewrite repeat_snoc. rewrite (IH (S k)). rewrite Nat.add_succ_r. reflexivity.
+  - unfold step, set_threads, init_threads at 1. simpl. rewrite repeat_snoc.
+    change (run c pol (init_threads r u (S k)) (repeat LSpawn m) = Some (init_threads r u (k + S m))).
+    rewrite (IH (S k)). rewrite Nat.add_succ_r. reflexivity.
 Qed.
 
-Lemma init_threads_reachable c sel r n : reachable c sel (init_threads r n).
-Proof. exists r, (repeat LSpawn n). exact (spawn_run c sel r n 0%nat). Qed.
+Lemma init_threads_reachable c pol r u n : reachable c pol (init_threads r u n).
+Proof. exists r, u, (repeat LSpawn n). exact (spawn_run c pol r u n 0%nat). Qed.
 
-Lemma fire_due_run c sel : forall fuel s s', fire_due c sel s fuel = Some s' -> exists ls, run c sel s ls = Some s'.
+Definition notick (l : label) : bool := match l with LTick _ => false | _ => true end.
+
+Lemma run_one c pol s l s' : step c pol s l = Some s' -> run c pol s [l] = Some s'.
+Proof. intros H. simpl. rewrite H. reflexivity. Qed.
+
+(* a composite of the harness is a run of atomic steps in which no time passes *)
+Definition quick_run c pol s s' : Prop := exists ls, run c pol s ls = Some s' /\ forallb notick ls = true.
+
+Lemma quick_refl c pol s : quick_run c pol s s.
+Proof. exists []. split; reflexivity. Qed.
+
+Lemma quick_step c pol s l s' : step c pol s l = Some s' -> notick l = true -> quick_run c pol s s'.
+Proof. intros H Hl. exists [l]. split; [exact (run_one _ _ _ _ _ H) | simpl; rewrite Hl; reflexivity]. Qed.
+
+Lemma quick_trans c pol s1 s2 s3 : quick_run c pol s1 s2 -> quick_run c pol s2 s3 -> quick_run c pol s1 s3.
+Proof.
+  intros (l1 & H1 & N1) (l2 & H2 & N2). exists (l1 ++ l2). split; [exact (run_app _ _ _ _ _ _ _ H1 H2)|].
+  rewrite forallb_app, N1, N2. reflexivity.
+Qed.
+
+Definition is_read (t : nat) (l : label) : bool := match l with LSelRead t' _ => Nat.eqb t t' | _ => false end.
+
+Lemma avail_labels_reads c s0 t hs : forallb (is_read t) (flat_map (avail_labels c s0 t) hs) = true.
+Proof.
+  induction hs as [|h hs IH]; simpl; [reflexivity|]. rewrite forallb_app, IH, andb_true_r.
+  unfold avail_labels. generalize (if unhealthy s0 h then 1%nat else if c_max_fails c <=? fails s0 h then 2%nat else 3%nat).
+  intros n. induction n as [|n IHn]; simpl; [reflexivity|]. rewrite Nat.eqb_refl, IHn. reflexivity.
+Qed.
+
+Lemma reads_notick t ls : forallb (is_read t) ls = true -> forallb notick ls = true.
+Proof.
+  induction ls as [|l ls IH]; simpl; [reflexivity|]. intros H. apply andb_true_iff in H as [H1 H2].
+  rewrite (IH H2). destruct l; try discriminate H1. reflexivity.
+Qed.
+
+Lemma quick_reads c pol s0 t hs : forall s s',
+  run c pol s (flat_map (avail_labels c s0 t) hs) = Some s' -> quick_run c pol s s'.
+Proof.
+  intros s s' H. exists (flat_map (avail_labels c s0 t) hs). split; [exact H|].
+  exact (reads_notick _ _ (avail_labels_reads c s0 t hs)).
+Qed.
+
+Lemma sel_scan_quick c pol s t s' : sel_scan c pol s t = Some s' -> quick_run c pol s s'.
+Proof.
+  intros H. unfold sel_scan in H. destruct (step c pol s (LSelStart t)) as [s1|] eqn:E1; [|discriminate].
+  apply (quick_trans _ _ _ s1); [exact (quick_step _ _ _ _ _ E1 eq_refl)|].
+  destruct (c_hosts c) as [|[|n]].
+  - destruct (run c pol s1 (flat_map (avail_labels c s t) (scan_reads c s (seq 0 0)))) as [s2|] eqn:E2; [|discriminate].
+    apply (quick_trans _ _ _ s2); [exact (quick_reads _ _ _ _ _ _ _ E2)|].
+    destruct (existsb (available c s) (seq 0 0)); [injection H as <-; apply quick_refl|].
+    exact (quick_step _ _ _ _ _ H eq_refl).
+  - destruct (run c pol s1 (avail_labels c s t 0%nat)) as [s2|] eqn:E2; [|discriminate].
+    apply (quick_trans _ _ _ s2).
+    { apply (quick_reads c pol s t [0%nat]). simpl. rewrite app_nil_r. exact E2. }
+    exact (quick_step _ _ _ _ _ H eq_refl).
+  - destruct (run c pol s1 (flat_map (avail_labels c s t) (scan_reads c s (seq 0 (S (S n)))))) as [s2|] eqn:E2; [|discriminate].
+    apply (quick_trans _ _ _ s2); [exact (quick_reads _ _ _ _ _ _ _ E2)|].
+    destruct (existsb (available c s) (seq 0 (S (S n)))); [injection H as <-; apply quick_refl|].
+    exact (quick_step _ _ _ _ _ H eq_refl).
+Qed.
+
+Lemma sel_policy_quick c pol ps s t s' : sel_policy c pol ps s t = Some s' -> quick_run c pol s s'.
+Proof.
+  intros H. unfold sel_policy in H.
+  destruct (nth_error (threads s) t) as [[| | | | | |]|]; try discriminate.
+  destruct (ps s) as [ho r].
+  destruct (run c pol s (flat_map (avail_labels c s t) (seq 0 (c_hosts c)))) as [s1|] eqn:E1; [|discriminate].
+  apply (quick_trans _ _ _ s1); [exact (quick_reads _ _ _ _ _ _ _ E1)|].
+  exact (quick_step _ _ _ _ _ H eq_refl).
+Qed.
+
+Lemma acquire_quick c pol s t s' : acquire c pol s t = Some s' -> quick_run c pol s s'.
+Proof.
+  intros H. unfold acquire in H. destruct (step c pol s (LLoad t)) as [s1|] eqn:E1; [|discriminate].
+  apply (quick_trans _ _ _ s1); [exact (quick_step _ _ _ _ _ E1 eq_refl)|].
+  destruct (nth_error (threads s1) t) as [[| | | | | |]|]; try (injection H as <-; apply quick_refl).
+  exact (quick_step _ _ _ _ _ H eq_refl).
+Qed.
+
+Lemma fire_due_run c pol : forall fuel s s', fire_due c pol s fuel = Some s' -> exists ls, run c pol s ls = Some s'.
 Proof.
   induction fuel as [|f IH]; intros s s' H; simpl in H.
   - injection H as <-. exists []. reflexivity.
-  - destruct (first_due (timers s) (now s) 0) as [k|].
-    + destruct (step c sel s (LFire k)) as [s1|] eqn:E; [|discriminate].
+  - destruct (first_due (c_fail_timeout c) (flog s) (now s) 0) as [k|].
+    + destruct (step c pol s (LFire k)) as [s1|] eqn:E; [|discriminate].
       destruct (IH _ _ H) as (ls & Hl). exists (LFire k :: ls). simpl. rewrite E. exact Hl.
     + injection H as <-. exists []. reflexivity.
 Qed.
 
-Lemma hexec_run c sel s h s' e : hexec c sel s h = Some (s', e) -> exists ls, run c sel s ls = Some s'.
+(* every harness step except the wait is a quick run *)
+Lemma hexec_quick c pol ps s h s' e :
+  (forall d, h <> HWait d) -> hexec c pol ps s h = Some (s', e) -> quick_run c pol s s'.
 Proof.
-  intros H. destruct h; simpl in H.
-  - destruct (step c sel s (LSelect t)) as [s1|] eqn:E; [|discriminate]. injection H as <- _.
-    exists [LSelect t]. simpl. rewrite E. reflexivity.
-  - destruct (nth_error (threads s) t) as [[|[x|]| | |]|]; try discriminate.
-    + destruct (step c sel s (LBegin t)) as [s1|] eqn:E; [|discriminate].
-      destruct (nth_error (threads s1) t) as [[|[y|]| | |]|];
-        try (injection H as <- _; exists [LBegin t]; simpl; rewrite E; reflexivity).
-      destruct (step c sel s1 (LNoHost t again)) as [s2|] eqn:E2; [|discriminate]. injection H as <- _.
-      exists [LBegin t; LNoHost t again]. simpl. rewrite E, E2. reflexivity.
-    + destruct (step c sel s (LNoHost t again)) as [s1|] eqn:E; [|discriminate]. injection H as <- _.
-      exists [LNoHost t again]. simpl. rewrite E. reflexivity.
-  - destruct (nth_error (threads s) t) as [[| | | |]|]; try discriminate. injection H as <- _.
-    exists []. reflexivity.
-  - destruct (step c sel s (LFinish t o)) as [s1|] eqn:E; [|discriminate].
-    destruct o.
-    2:{ destruct (step c sel s1 (LRecord t again)) as [s2|] eqn:E2; [|discriminate]. injection H as <- _.
-        exists [LFinish t OError; LRecord t again]. simpl. rewrite E, E2. reflexivity. }
-    all: injection H as <- _; eexists [LFinish t _]; simpl; rewrite E; reflexivity.
-  - destruct (step c sel s (LTick d)) as [s1|] eqn:E; [|discriminate].
-    destruct (fire_due c sel s1 (length (timers s1))) as [s2|] eqn:E2; [|discriminate]. injection H as <- _.
-    destruct (fire_due_run _ _ _ _ _ E2) as (ls & Hl). exists (LTick d :: ls). simpl. rewrite E. exact Hl.
+  intros Hw H. destruct h; cbn [hexec] in H.
+  - destruct (sel_scan c pol s t) as [s1|] eqn:E1; [|discriminate].
+    pose proof (sel_scan_quick _ _ _ _ _ E1) as Q1.
+    destruct (nth_error (threads s1) t) as [[| | | | | |]|]; try (injection H as <- _; exact Q1).
+    destruct (sel_policy c pol ps s1 t) as [s2|] eqn:E2; [|discriminate]. injection H as <- _.
+    exact (quick_trans _ _ _ _ _ Q1 (sel_policy_quick _ _ _ _ _ _ E2)).
+  - destruct (sel_scan c pol s t) as [s1|] eqn:E1; [|discriminate]. injection H as <- _.
+    exact (sel_scan_quick _ _ _ _ _ E1).
+  - destruct (sel_policy c pol ps s t) as [s1|] eqn:E1; [|discriminate]. injection H as <- _.
+    exact (sel_policy_quick _ _ _ _ _ _ E1).
+  - destruct (nth_error (threads s) t) as [[| |[x|]| | | |]|]; try discriminate.
+    + destruct (acquire c pol s t) as [s1|] eqn:E1; [|discriminate].
+      pose proof (acquire_quick _ _ _ _ _ E1) as Q1.
+      destruct (nth_error (threads s1) t) as [[| |[y|]| | | |]|]; try (injection H as <- _; exact Q1).
+      destruct (step c pol s1 (LNoHost t again)) as [s2|] eqn:E2; [|discriminate]. injection H as <- _.
+      exact (quick_trans _ _ _ _ _ Q1 (quick_step _ _ _ _ _ E2 eq_refl)).
+    + destruct (step c pol s (LNoHost t again)) as [s1|] eqn:E; [|discriminate]. injection H as <- _.
+      exact (quick_step _ _ _ _ _ E eq_refl).
+  - destruct (nth_error (threads s) t) as [[| | | | | |]|]; try discriminate. injection H as <- _. apply quick_refl.
+  - destruct (step c pol s (LFinish t o)) as [s1|] eqn:E; [|discriminate].
+    pose proof (quick_step _ _ _ _ _ E eq_refl) as Q1.
+    destruct o; try (injection H as <- _; exact Q1).
+    destruct (step c pol s1 (LRecord t again)) as [s2|] eqn:E2; [|discriminate]. injection H as <- _.
+    exact (quick_trans _ _ _ _ _ Q1 (quick_step _ _ _ _ _ E2 eq_refl)).
+  - exfalso. exact (Hw d eq_refl).
+  - destruct (step c pol s (LHealth h b)) as [s1|] eqn:E; [|discriminate]. injection H as <- _.
+    exact (quick_step _ _ _ _ _ E eq_refl).
 Qed.
 
-Lemma hexec_reachable c sel s h s' e :
-  reachable c sel s -> hexec c sel s h = Some (s', e) -> reachable c sel s'.
-Proof. intros R H. destruct (hexec_run _ _ _ _ _ _ H) as (ls & Hl). exact (reachable_run _ _ _ _ _ R Hl). Qed.
+Lemma hexec_run c pol ps s h s' e : hexec c pol ps s h = Some (s', e) -> exists ls, run c pol s ls = Some s'.
+Proof.
+  intros H. destruct h as [t|t|t|t again|t|t o again|d|h b]; try (match type of H with hexec _ _ _ _ ?hh = _ => assert (Hw : forall d0, hh <> HWait d0) by (intros ?; discriminate) end;
+       destruct (hexec_quick _ _ _ _ _ _ _ Hw H) as (ls & Hl & _); exists ls; exact Hl).
+  cbn [hexec] in H. destruct (step c pol s (LTick d)) as [s1|] eqn:E; [|discriminate].
+  destruct (fire_due c pol s1 (length (flog s1))) as [s2|] eqn:E2; [|discriminate]. injection H as <- _.
+  destruct (fire_due_run _ _ _ _ _ E2) as (ls & Hl). exists (LTick d :: ls). simpl. rewrite E. exact Hl.
+Qed.
+
+Lemma hexec_reachable c pol ps s h s' e :
+  reachable c pol s -> hexec c pol ps s h = Some (s', e) -> reachable c pol s'.
+Proof. intros R H. destruct (hexec_run _ _ _ _ _ _ _ H) as (ls & Hl). exact (reachable_run _ _ _ _ _ R Hl). Qed.
+
+(* every step except the passing of time keeps the expiry goroutines on time *)
+Lemma step_prompt c pol s l s' :
+  notick l = true -> prompt c s -> step c pol s l = Some s' -> prompt c s'.
+Proof.
+  intros Hl Pr H. destruct l; try discriminate Hl; unfold step in H.
+  - injection H as <-. exact Pr.
+  - destruct (nth_error (threads s) t) as [[| | | | | |]|]; try discriminate. injection H as <-. exact Pr.
+  - destruct (nth_error (threads s) t) as [[|obs cur| | | | |]|]; try discriminate.
+    match type of H with match ?rn with _ => _ end = _ => destruct rn; [|discriminate] end. injection H as <-. exact Pr.
+  - destruct (nth_error (threads s) t) as [[|obs [?|]| | | | |]|]; try discriminate.
+    destruct (pol obs ho); [|discriminate]. injection H as <-. exact Pr.
+  - destruct (nth_error (threads s) t) as [[| |[x|]| | | |]|]; try discriminate. injection H as <-. exact Pr.
+  - destruct (nth_error (threads s) t) as [[| | |x n| | |]|]; try discriminate.
+    destruct (conns s x =? n); injection H as <-; exact Pr.
+  - destruct (nth_error (threads s) t) as [[| |[x|]| | | |]|]; try discriminate. injection H as <-. exact Pr.
+  - destruct (nth_error (threads s) t) as [[| | | |x| |]|]; try discriminate. injection H as <-. exact Pr.
+  - destruct (nth_error (threads s) t) as [[| | | | |x|]|]; try discriminate.
+    destruct (0 <? c_fail_timeout c) eqn:Hft; injection H as <-; [|exact Pr].
+    intros f Hf Hs. sset. apply in_app_or in Hf as [Hf|[<-|[]]]; [exact (Pr f Hf Hs)|].
+    simpl. apply Z.ltb_lt in Hft. lia.
+  - destruct (nth_error (flog s) k) as [g|] eqn:Hn; [|discriminate].
+    destruct (asleep g && (f_at g + c_fail_timeout c <=? now s)); [|discriminate]. injection H as <-.
+    intros f Hf Hs. sset. apply in_set_nth in Hf as [->|Hf]; [discriminate Hs | exact (Pr f Hf Hs)].
+  - injection H as <-. exact Pr.
+Qed.
+
+Lemma quick_prompt c pol s s' : quick_run c pol s s' -> prompt c s -> prompt c s'.
+Proof.
+  intros (ls & H & N). revert s H N. induction ls as [|l ls IH]; intros s H N Pr; simpl in H.
+  - injection H as <-. exact Pr.
+  - destruct (step c pol s l) as [s1|] eqn:E; [|discriminate].
+    simpl in N. apply andb_true_iff in N as [N1 N2].
+    exact (IH _ H N2 (step_prompt _ _ _ _ _ N1 Pr E)).
+Qed.
 
 (* after a wait the model state is prompt: every due expiry goroutine has run *)
-Lemma first_due_none ts nw k : first_due ts nw k = None -> forall e, In e ts -> nw < snd e.
+Lemma first_due_none ft fl nw k :
+  first_due ft fl nw k = None -> forall f, In f fl -> f_fired f = None -> nw < f_at f + ft.
 Proof.
-  revert k; induction ts as [|[h d] r IH]; intros k H e He; [contradiction|]. simpl in H.
-  destruct (d <=? nw) eqn:E; [discriminate|]. apply Z.leb_gt in E.
-  destruct He as [<-|He]; [simpl; lia | exact (IH _ H e He)].
+  revert k; induction fl as [|g r IH]; intros k H f Hf Hs; [contradiction|]. simpl in H.
+  destruct (asleep g && (f_at g + ft <=? nw)) eqn:E; [discriminate|].
+  destruct Hf as [<-|Hf]; [|exact (IH _ H f Hf Hs)].
+  unfold asleep in E. rewrite Hs in E. simpl in E. apply Z.leb_gt in E. exact E.
 Qed.
 
-Lemma fire_due_prompt c sel : forall fuel s s',
-  (length (timers s) <= fuel)%nat -> fire_due c sel s fuel = Some s' -> prompt s'.
+Lemma fire_due_prompt c pol : forall fuel s s',
+  sleepers s <= Z.of_nat fuel -> fire_due c pol s fuel = Some s' -> prompt c s'.
 Proof.
   induction fuel as [|f IH]; intros s s' Hl H; simpl in H.
-  - injection H as <-. intros e He. destruct (timers s); [contradiction | simpl in Hl; lia].
-  - destruct (first_due (timers s) (now s) 0) as [k|] eqn:F.
-    + destruct (step c sel s (LFire k)) as [s1|] eqn:E; [|discriminate].
+  - injection H as <-. intros g Hg Hs. exfalso.
+    pose proof (cnt_nonneg asleep (flog s)) as Hnn.
+    assert (Z0 : cnt asleep (flog s) = 0) by (unfold sleepers in Hl; lia).
+    pose proof (cnt_zero_inv _ _ _ Z0 Hg) as Ha. unfold asleep in Ha. rewrite Hs in Ha. discriminate.
+  - destruct (first_due (c_fail_timeout c) (flog s) (now s) 0) as [k|] eqn:F.
+    + destruct (step c pol s (LFire k)) as [s1|] eqn:E; [|discriminate].
       apply (IH s1 s'); [|exact H].
-      inv_fire E s k h d Heqo Hdue. simpl.
-      assert (L : forall (l : list (nat * Z)) k x, nth_error l k = Some x -> S (length (remove_nth l k)) = length l).
-      { clear. induction l as [|y l IHl]; intros [|k] x Hx; simpl in *; try discriminate; auto.
-        rewrite (IHl _ _ Hx). reflexivity. }
-      pose proof (L _ _ _ Heqo). lia.
-    + injection H as <-. intros e He. exact (first_due_none _ _ _ F e He).
+      unfold step in E. destruct (nth_error (flog s) k) as [g|] eqn:Hn; [|discriminate].
+      destruct (asleep g && (f_at g + c_fail_timeout c <=? now s)) eqn:G; [|discriminate]. injection E as <-.
+      apply andb_true_iff in G as [Ga _].
+      unfold sleepers in *. simpl. rewrite (cnt_set_nth _ _ _ _ _ Hn). rewrite Ga. unfold fire, asleep at 2. simpl.
+      unfold b2z. lia.
+    + injection H as <-. exact (first_due_none _ _ _ _ F).
+Qed.
+
+Lemma hexec_prompt c pol ps s h s' e : prompt c s -> hexec c pol ps s h = Some (s', e) -> prompt c s'.
+Proof.
+  intros Pr H. destruct h as [t|t|t|t again|t|t o again|d|h b]; try (match type of H with hexec _ _ _ _ ?hh = _ => assert (Hw : forall d0, hh <> HWait d0) by (intros ?; discriminate) end;
+       exact (quick_prompt _ _ _ _ (hexec_quick _ _ _ _ _ _ _ Hw H) Pr)).
+  cbn [hexec] in H. destruct (step c pol s (LTick d)) as [s1|] eqn:E; [|discriminate].
+  destruct (fire_due c pol s1 (length (flog s1))) as [s2|] eqn:E2; [|discriminate]. injection H as <- _.
+  apply (fire_due_prompt _ _ _ _ _ (cnt_le_length _ _) E2).
+Qed.
+
+Lemma init_threads_prompt c r u n : prompt c (init_threads r u n).
+Proof. intros f Hf. simpl in Hf. contradiction. Qed.
+
+Lemma harness_states_reachable c pol r u n : reachable c pol (init_threads r u n) /\ prompt c (init_threads r u n).
+Proof. split; [apply init_threads_reachable | apply init_threads_prompt]. Qed.
+
+Lemma harness_steps_reachable c pol ps s h s' e :
+  reachable c pol s -> prompt c s -> hexec c pol ps s h = Some (s', e) -> reachable c pol s' /\ prompt c s'.
+Proof.
+  intros R P H. split; [exact (hexec_reachable _ _ _ _ _ _ _ R H) | exact (hexec_prompt _ _ _ _ _ _ _ P H)].
+Qed.
+
+(* a whole Select that runs while nothing else moves answers a host that is available in that state *)
+Lemma reads_keep c pol t : forall ls s s',
+  forallb (is_read t) ls = true -> run c pol s ls = Some s' ->
+  conns s' = conns s /\ fails s' = fails s /\ unhealthy s' = unhealthy s /\ robin s' = robin s /\
+  ((exists obs cur, nth_error (threads s) t = Some (Selecting obs cur)) ->
+   (exists obs cur, nth_error (threads s') t = Some (Selecting obs cur))).
+Proof.
+  induction ls as [|l ls IH]; intros s s' Hr H; simpl in H.
+  - injection H as <-. repeat split; auto.
+  - destruct (step c pol s l) as [s1|] eqn:E; [|discriminate].
+    simpl in Hr. apply andb_true_iff in Hr as [Hr1 Hr2].
+    destruct (IH _ _ Hr2 H) as (A & B & C & D & F).
+    destruct l; try discriminate Hr1. simpl in Hr1. apply Nat.eqb_eq in Hr1. subst t0.
+    open_thread E s t Hn. destruct (read_next c s h obs cur) as [p|] eqn:Er; [|discriminate]. injection E as <-.
+    destruct (read_next_selecting _ _ _ _ _ _ Er) as (obs' & cur' & ->). sset. repeat split; auto.
+    intros _. apply F. eexists. eexists. exact (nth_error_set_nth _ _ _ _ Hn).
+Qed.
+
+Lemma available_ext c s s' h :
+  conns s' = conns s -> fails s' = fails s -> unhealthy s' = unhealthy s -> available c s' h = available c s h.
+Proof. intros A B C. unfold available, down, full. rewrite A, B, C. reflexivity. Qed.
+
+Lemma select_atomic_available c pol ps s t s' h :
+  psel_sound c ps -> hexec c pol ps s (HSelect t) = Some (s', EvSel (Some h)) -> available c s h = true.
+Proof.
+  intros Hs H. cbn [hexec] in H. destruct (sel_scan c pol s t) as [s1|] eqn:E1; [|discriminate].
+  unfold sel_scan in E1. destruct (step c pol s (LSelStart t)) as [sa|] eqn:Ea; [|discriminate].
+  assert (Ka : conns sa = conns s /\ fails sa = fails s /\ unhealthy sa = unhealthy s /\
+               exists obs cur, nth_error (threads sa) t = Some (Selecting obs cur)).
+  { open_thread Ea s t Hn. injection Ea as <-. sset. repeat split; auto. eexists. eexists. exact (nth_error_set_nth _ _ _ _ Hn). }
+  destruct Ka as (Ka1 & Ka2 & Ka3 & Ka4).
+  (* the policy phase, whenever it is reached from a state with the same counters *)
+  assert (P : forall s1, conns s1 = conns s -> fails s1 = fails s -> unhealthy s1 = unhealthy s ->
+              forall s2, sel_policy c pol ps s1 t = Some s2 ->
+              pc_ev (nth_error (threads s2) t) = EvSel (Some h) -> available c s h = true).
+  { intros s1' A B C s2 E2 Ev. unfold sel_policy in E2.
+    destruct (nth_error (threads s1') t) as [[|obs1 cur1| | | | |]|] eqn:Hn1; try discriminate.
+    destruct (ps s1') as [ho r] eqn:Eps.
+    destruct (run c pol s1' (flat_map (avail_labels c s1' t) (seq 0 (c_hosts c)))) as [sb|] eqn:Eb; [|discriminate].
+    open_thread E2 sb t Hnb. destruct cur; [discriminate|]. destruct (pol obs ho); [|discriminate]. injection E2 as <-. sset.
+    rewrite (nth_error_set_nth _ _ _ _ Hnb) in Ev. simpl in Ev. injection Ev as ->.
+    rewrite <- (available_ext c s s1' h A B C). exact (Hs _ _ _ Eps). }
+  (* the end of a Select by the scan itself *)
+  assert (Q : forall sb ho r s2, step c pol sb (LSelEnd t ho r) = Some s2 ->
+              nth_error (threads s2) t = Some (Selected ho)).
+  { intros sb ho r s2 E. open_thread E sb t Hnb. destruct cur; [discriminate|]. destruct (pol obs ho); [|discriminate]. injection E as <-. sset.
+    exact (nth_error_set_nth _ _ _ _ Hnb). }
+  destruct (c_hosts c) as [|[|n]].
+  - destruct (run c pol sa (flat_map (avail_labels c s t) (scan_reads c s (seq 0 0)))) as [sb|] eqn:Eb; [|discriminate].
+    simpl in E1. rewrite (Q _ _ _ _ E1) in H. simpl in H. discriminate.
+  - destruct (run c pol sa (avail_labels c s t 0%nat)) as [sb|] eqn:Eb; [|discriminate].
+    rewrite (Q _ _ _ _ E1) in H. simpl in H. injection H as _ H.
+    destruct (available c s 0%nat) eqn:Av; [injection H as <-; exact Av | discriminate].
+  - destruct (run c pol sa (flat_map (avail_labels c s t) (scan_reads c s (seq 0 (S (S n)))))) as [sb|] eqn:Eb; [|discriminate].
+    destruct (reads_keep _ _ _ _ _ _ (avail_labels_reads c s t _) Eb) as (A & B & C & _ & F).
+    destruct (existsb (available c s) (seq 0 (S (S n)))).
+    + injection E1 as <-. destruct (F Ka4) as (obs & cur & Hn). rewrite Hn in H.
+      destruct (sel_policy c pol ps sb t) as [s2|] eqn:E2; [|discriminate]. injection H as <- Ev.
+      exact (P sb ltac:(congruence) ltac:(congruence) ltac:(congruence) s2 E2 Ev).
+    + rewrite (Q _ _ _ _ E1) in H. simpl in H. discriminate.
 Qed.
 
 (* ---------- parsing of max_fails ---------- *)
@@ -559,56 +1233,49 @@ Proof.
     rewrite F. assert (L : (n <? 1) = false) by (apply Z.ltb_ge; lia). rewrite L. reflexivity.
 Qed.
 
-(* every step except the passing of time keeps the expiry goroutines on time *)
-Lemma step_prompt c sel s l s' :
-  (forall d, l <> LTick d) -> prompt s -> step c sel s l = Some s' -> prompt s'.
+Lemma fails_counts_sleeping c pol s h :
+  reachable c pol s -> fails s h = cnt (on_host h) (filter asleep (flog s)).
 Proof.
-  intros Hl Pr H. destruct l.
-  - inv_spawn H. exact Pr.
-  - inv_select H sel s t o r Hn Hsel. exact Pr.
-  - inv_begin H c s t h Hn F; exact Pr.
-  - inv_nohost H s t Hn. exact Pr.
-  - inv_finish H s t h Hn. exact Pr.
-  - inv_record H c s t h Hn Hft; [|exact Pr].
-    intros e He. simpl in *. apply in_app_or in He as [He|[<-|[]]]; [exact (Pr e He)|].
-    simpl. apply Z.ltb_lt in Hft. lia.
-  - inv_fire H s k h d Hn Hdue. intros e He. simpl in *. exact (Pr e (in_remove_nth _ _ _ He)).
-  - exfalso. exact (Hl d eq_refl).
+  intros R. rewrite (fails_counts_pending c pol s h R). unfold pending.
+  induction (flog s) as [|f l IH]; simpl; [reflexivity|].
+  destruct (asleep f); simpl; rewrite IH; [rewrite andb_true_r | rewrite andb_false_r]; reflexivity.
 Qed.
 
-Lemma hexec_prompt c sel s h s' e : prompt s -> hexec c sel s h = Some (s', e) -> prompt s'.
+(* the availability read is a snapshot: marked unhealthy right after the load of Unhealthy — in the middle of
+   host.Available() — the host is still answered and forwarded to *)
+Lemma selected_host_healthy_refuted :
+  exists c s h, reachable c (pol_std (c_hosts c)) s /\
+                nth_error (threads s) 0 = Some (Forwarding h) /\ unhealthy s h = true /\
+                exists s', reachable c (pol_std (c_hosts c)) s' /\
+                           nth_error (threads s') 0 = Some (Selected (Some h)) /\ down c s' h = true.
 Proof.
-  intros Pr H. destruct h; cbn [hexec] in H.
-  - destruct (step c sel s (LSelect t)) as [s1|] eqn:E; [|discriminate]. injection H as <- _.
-    eapply step_prompt; [|exact Pr|exact E]; intros ?; discriminate.
-  - destruct (nth_error (threads s) t) as [[|[x|]| | |]|]; try discriminate.
-    + destruct (step c sel s (LBegin t)) as [s1|] eqn:E; [|discriminate].
-      assert (P1 : prompt s1) by (eapply step_prompt; [|exact Pr|exact E]; intros ?; discriminate).
-      destruct (nth_error (threads s1) t) as [[|[y|]| | |]|]; try (injection H as <- _; exact P1).
-      destruct (step c sel s1 (LNoHost t again)) as [s2|] eqn:E2; [|discriminate]. injection H as <- _.
-      eapply step_prompt; [|exact P1|exact E2]; intros ?; discriminate.
-    + destruct (step c sel s (LNoHost t again)) as [s1|] eqn:E; [|discriminate]. injection H as <- _.
-      eapply step_prompt; [|exact Pr|exact E]; intros ?; discriminate.
-  - destruct (nth_error (threads s) t) as [[| | | |]|]; try discriminate. injection H as <- _. exact Pr.
-  - destruct (step c sel s (LFinish t o)) as [s1|] eqn:E; [|discriminate].
-    assert (P1 : prompt s1) by (eapply step_prompt; [|exact Pr|exact E]; intros ?; discriminate).
-    destruct o.
-    2:{ destruct (step c sel s1 (LRecord t again)) as [s2|] eqn:E2; [|discriminate]. injection H as <- _.
-        eapply step_prompt; [|exact P1|exact E2]; intros ?; discriminate. }
-    all: injection H as <- _; exact P1.
-  - destruct (step c sel s (LTick d)) as [s1|] eqn:E; [|discriminate].
-    destruct (fire_due c sel s1 (length (timers s1))) as [s2|] eqn:E2; [|discriminate]. injection H as <- _.
-    exact (fire_due_prompt _ _ _ _ _ (le_n _) E2).
+  exists cfg_cap1, (set_conns (set_unhealthy (set_threads (init 0 healthy) [Forwarding 0]) (setb healthy 0 true))
+                              (bump (fun _ => 0) 0 1)), 0%nat.
+  split; [|split; [reflexivity | split; [reflexivity|]]].
+  - exists 0%N, healthy, [LSpawn; LSelStart 0; LSelRead 0 0; LHealth 0 true; LSelRead 0 0; LSelRead 0 0; LSelEnd 0 (Some 0%nat) 0%N; LLoad 0; LCas 0].
+    reflexivity.
+  - exists (set_robin (set_unhealthy (set_threads (init 0 healthy) [Selected (Some 0%nat)]) (setb healthy 0 true)) 0).
+    split; [|split; reflexivity].
+    exists 0%N, healthy, [LSpawn; LSelStart 0; LSelRead 0 0; LHealth 0 true; LSelRead 0 0; LSelRead 0 0; LSelEnd 0 (Some 0%nat) 0%N]. reflexivity.
 Qed.
 
-Lemma init_threads_prompt r n : prompt (init_threads r n).
-Proof. intros e He. simpl in He. contradiction. Qed.
+(* timers that may be late, but by less than delta: Fails lies between the failures younger than
+   fail_timeout and the failures younger than fail_timeout + delta (delta = 0 is [prompt]) *)
+Definition late_by (c : config) (delta : Z) (s : state) : Prop :=
+  forall f, In f (flog s) -> f_fired f = None -> now s < f_at f + c_fail_timeout c + delta.
 
-Lemma harness_states_reachable c sel r n : reachable c sel (init_threads r n) /\ prompt (init_threads r n).
-Proof. split; [apply init_threads_reachable | apply init_threads_prompt]. Qed.
-
-Lemma harness_steps_reachable c sel s h s' e :
-  reachable c sel s -> prompt s -> hexec c sel s h = Some (s', e) -> reachable c sel s' /\ prompt s'.
+Lemma fails_bounds_under_late_timers c pol s h delta :
+  reachable c pol s -> late_by c delta s ->
+  unexpired c s h <= fails s h <=
+  cnt (fun f => on_host h f && (now s <? f_at f + c_fail_timeout c + delta)) (flog s).
 Proof.
-  intros R P H. split; [exact (hexec_reachable _ _ _ _ _ _ R H) | exact (hexec_prompt _ _ _ _ _ _ P H)].
+  intros R L. split; [exact (fails_ge_unexpired _ _ _ h R)|].
+  rewrite (fails_counts_pending _ _ _ h R). unfold pending. apply cnt_mono.
+  intros f Hf H. apply andb_true_iff in H as [H1 H2]. rewrite H1. simpl. apply Z.ltb_lt.
+  apply (L f Hf). unfold asleep in H2. destruct (f_fired f); [discriminate | reflexivity].
+Qed.
+
+Lemma prompt_is_late_by_zero c s : prompt c s <-> late_by c 0 s.
+Proof.
+  unfold prompt, late_by. split; intros H f Hf Hs; specialize (H f Hf Hs); lia.
 Qed.
